@@ -1,14 +1,22 @@
 """Routine alphabet of the C19 check: name -> callable, and deterministic argument sets.
-Every callable takes the arguments built by make_args(name, argset) and returns the value
-whose bits must depend on the arguments only."""
+
+Every entry is registered with _reg(name, fn, argf, writes=()):
+  fn      the call under test; receives the arguments built by argf and returns the value whose
+          bits must depend on the arguments only (tuples / sparse matrices / RaggedArrays /
+          ClusterResults / TrimMappings are projected to bits by purity_worker.canon);
+  argf    argf(rs, k) -> tuple of arguments for argument set k (0 <= k < NSETS); rs is a
+          RandomState seeded from (name, k), so every process builds the same bits;
+  writes  positions of the arguments the routine is DOCUMENTED to write (out= buffers); every
+          other argument is fingerprinted before and after the call and must be unchanged.
+A name is "<module>.<function>/<variant>"; the variant names the option / container / dtype /
+memory-layout form.  make_args(name, k) and ROUTINES[name] are the interface of the worker.
+
+Left out on purpose (with the reason) -- see the comments marked SKIPPED / EXCLUDED below.
+"""
 import numpy as np
 import scipy.sparse as sp
 
 NSETS = 3
-
-
-def _rs(name, k):
-    return np.random.RandomState((hash_name(name) + 7919 * k) % (2 ** 31))
 
 
 def hash_name(s):
@@ -18,6 +26,68 @@ def hash_name(s):
     return h
 
 
+def _rs(name, k):
+    return np.random.RandomState((hash_name(name) + 7919 * k) % (2 ** 31))
+
+
+# ------------------------------------------------------------------ registry
+_REG = {}
+_BUILT = [False]
+
+
+def _reg(name, fn, argf, writes=()):
+    if name in _REG:
+        raise KeyError("duplicate routine name " + name)
+    _REG[name] = (fn, argf, frozenset(writes))
+
+
+def _ensure():
+    if not _BUILT[0]:
+        _BUILT[0] = True
+        for f in _FAMILIES:
+            f()
+
+
+def make_args(name, k):
+    _ensure()
+    return tuple(_REG[name][1](_rs(name, k), k))
+
+
+def writes(name):
+    """argument positions the routine is documented to write (WritesArg of the spec)"""
+    _ensure()
+    return _REG[name][2]
+
+
+class _Lazy(dict):
+    def __missing__(self, k):
+        _ensure()
+        return _REG[k][0]
+
+    def names(self):
+        _ensure()
+        return sorted(_REG.keys())
+
+
+ROUTINES = _Lazy()
+
+
+class _LazyWrites(dict):
+    def __contains__(self, k):
+        return bool(writes(k))
+
+    def __missing__(self, k):
+        return writes(k)
+
+
+# name -> positions of documented in-place arguments (only the out= buffers of libdist)
+WRITES_ARG = _LazyWrites()
+# routines whose execution leaves freed junk of many sizes on the heap (prior-call alphabet)
+DIRTY = ["entropy.shannon_entropy", "mutual_info.mutual_information", "builders.mle", "tpt.paths",
+         "cluster.hybrid", "ra.ops"]
+
+
+# ------------------------------------------------------------------ argument helpers
 def _counts(rs, n=4, zero_frac=0.4):
     C = rs.randint(0, 5, size=(n, n)) * (rs.rand(n, n) > zero_frac)
     C = C + np.diag(np.ones(n, dtype=int))
@@ -43,6 +113,16 @@ def _assigns(rs, ntraj=3, nst=4):
     return ra.RaggedArray([rs.randint(0, nst, size=rs.randint(5, 12)) for _ in range(ntraj)])
 
 
+def _padded(rs, ntraj=3, nst=4, width=12):
+    """2-D assignments, rows padded with -1 (the documented 'no frame' marker)"""
+    a = -np.ones((ntraj, width), dtype=int)
+    for i in range(ntraj):
+        n = rs.randint(5, width + 1)
+        a[i, :n] = rs.randint(0, nst, size=n)
+    a[0, :nst] = np.arange(nst)             # every state occurs
+    return a
+
+
 def _points(rs, n=12, d=2):
     pts = set()
     while len(pts) < n:
@@ -50,196 +130,1090 @@ def _points(rs, n=12, d=2):
     return np.array(sorted(pts), dtype=float)[rs.permutation(n)]
 
 
-def make_args(name, k):
-    rs = _rs(name, k)
-    base = name.split("/")[0]
-    if base == "entropy.shannon_entropy":
-        p = rs.rand(6)
-        p[rs.randint(0, 6, size=2 + k)] = 0.0          # zeros are the masked-out cells
-        return (p,)
-    if base == "entropy.shannon_entropy_2d":
+def _trim_counts(rs, k):
+    """Count matrix with a main strongly connected component {0,1,2,3}, a state (4) that is only
+    reached by a one-way link, a state (5) with a one-way link INTO the component, an isolated
+    state (6) with self counts only, and (k>0) links of weight 1 that vanish at threshold=2."""
+    n = 7
+    C = np.zeros((n, n), dtype=int)
+    for i in range(4):
+        C[i, (i + 1) % 4] = 2 + rs.randint(0, 4)
+        C[(i + 1) % 4, i] = 2 + rs.randint(0, 4)
+        C[i, i] = rs.randint(1, 6)
+    C[1, 4] = 3 + k                          # one-way out of the component
+    C[4, 4] = 2
+    C[5, 2] = 2 + k                          # one-way into the component
+    C[5, 5] = 4
+    C[6, 6] = 5                              # isolated
+    if k >= 1:
+        C[0, 2] = 1                          # weak links: present at threshold 1, gone at 2
+        C[4, 1] = 1                          # closes 1 <-> 4 only at threshold 1
+    if k >= 2:
+        C[6, 5] = 1
+        C[5, 6] = 1
+    return C
+
+
+def _container(C, cont):
+    """the container / dtype / layout forms of a matrix argument"""
+    C = np.array(C)
+    if cont in ("", "dense", "float"):
+        return C.astype(float)
+    if cont == "int":
+        return C.astype(int)
+    if cont == "int32":
+        return C.astype(np.int32)
+    if cont == "f32":
+        return C.astype(np.float32)
+    if cont == "F":
+        return np.asfortranarray(C.astype(float))
+    if cont == "Fint":
+        return np.asfortranarray(C.astype(int))
+    if cont == "strided":
+        big = np.zeros((2 * C.shape[0], 2 * C.shape[1]), dtype=float)
+        big[::2, ::2] = C
+        return big[::2, ::2]
+    dt = int if cont.endswith("_int") else float
+    base = cont.split("_")[0]
+    ctor = {"csr": sp.csr_matrix, "csc": sp.csc_matrix, "coo": sp.coo_matrix, "lil": sp.lil_matrix,
+            "dok": sp.dok_matrix, "bsr": sp.bsr_matrix, "csra": sp.csr_array, "cooa": sp.coo_array}[base]
+    return ctor(C.astype(dt))
+
+
+def _mdtraj(rs, n_frames=6, n_atoms=5):
+    """a tiny synthetic md.Trajectory (no files)"""
+    import mdtraj as md
+    top = md.Topology()
+    ch = top.add_chain()
+    for i in range(n_atoms):
+        r = top.add_residue("ALA", ch)
+        top.add_atom("CA", md.element.carbon, r)
+    xyz = (rs.rand(n_frames, n_atoms, 3) * 2).astype(np.float32)
+    return md.Trajectory(xyz, top)
+
+
+_FAMILIES = []
+
+
+def _family(f):
+    _FAMILIES.append(f)
+    return f
+
+
+# ================================================================== info_theory.entropy
+@_family
+def _fam_entropy():
+    from enspara.info_theory import entropy
+    from enspara.msm import builders
+
+    def p_zeros(rs, k, n=6):
+        p = rs.rand(n)
+        p[rs.randint(0, n, size=2 + k)] = 0.0          # zeros are the masked-out cells
+        return p
+
+    def p2d(rs, k):
         p = rs.rand(3, 4)
         p[rs.rand(3, 4) < 0.4] = 0.0
         p[0, 0] = 0.5
-        return (p,)
-    if base == "entropy.kl_divergence":
-        P = rs.rand(5) + 0.1
-        Q = rs.rand(5) + 0.1
-        return (P / P.sum(), Q / Q.sum())
-    if base == "entropy.js_divergence":
-        P = rs.rand(5) + 0.1
-        Q = rs.rand(5) + 0.1
-        return (P / P.sum(), Q / Q.sum())
-    if base in ("mutual_info.mutual_information", "mutual_info.mutual_information_empty_pair"):
-        T, F, S = 30, 3, 3
+        return p
+
+    def counts_int(rs, k):
+        c = rs.randint(0, 6, size=7)
+        c[rs.randint(0, 7, size=2 + k)] = 0
+        c[0] = 3
+        return c
+
+    _reg("entropy.shannon_entropy", lambda p: entropy.shannon_entropy(p), lambda rs, k: (p_zeros(rs, k),))
+    _reg("entropy.shannon_entropy/nonorm", lambda p: entropy.shannon_entropy(p / p.sum(), normalize=False),
+         lambda rs, k: (p_zeros(rs, k),))
+    _reg("entropy.shannon_entropy/nonorm_raw", lambda p: entropy.shannon_entropy(p, normalize=False),
+         lambda rs, k: ((lambda p: p / p.sum())(p_zeros(rs, k)),))
+    _reg("entropy.shannon_entropy/nonorm_int", lambda p: entropy.shannon_entropy(p, normalize=False),
+         lambda rs, k: (counts_int(rs, k),))
+    _reg("entropy.shannon_entropy/int", lambda p: entropy.shannon_entropy(p), lambda rs, k: (counts_int(rs, k),))
+    _reg("entropy.shannon_entropy/int32", lambda p: entropy.shannon_entropy(p),
+         lambda rs, k: (counts_int(rs, k).astype(np.int32),))
+    _reg("entropy.shannon_entropy/f32", lambda p: entropy.shannon_entropy(p),
+         lambda rs, k: (p_zeros(rs, k).astype(np.float32),))
+    _reg("entropy.shannon_entropy/list", lambda p: entropy.shannon_entropy(p),
+         lambda rs, k: ([float(x) for x in p_zeros(rs, k)],))
+    _reg("entropy.shannon_entropy/strided", lambda p: entropy.shannon_entropy(p),
+         lambda rs, k: (p_zeros(rs, k, 12)[::2],))
+    _reg("entropy.shannon_entropy_2d", lambda p: entropy.shannon_entropy(p), lambda rs, k: (p2d(rs, k),))
+    _reg("entropy.shannon_entropy_2d/F", lambda p: entropy.shannon_entropy(p),
+         lambda rs, k: (np.asfortranarray(p2d(rs, k)),))
+    _reg("entropy.shannon_entropy_2d/nonorm", lambda p: entropy.shannon_entropy(p, normalize=False),
+         lambda rs, k: ((lambda p: p / p.sum())(p2d(rs, k)),))
+
+    def pq(rs, k, zeros=False, shape=(5,)):
+        P = rs.rand(*shape) + 0.1
+        Q = rs.rand(*shape) + 0.1
+        if zeros:
+            P[..., rs.randint(0, shape[-1])] = 0.0       # 0 log 0 = 0
+            z = rs.randint(0, shape[-1])
+            P[..., z] = 0.0
+            Q[..., z] = 0.0                              # 0 log 0/0 = 0
+        return P / P.sum(axis=-1, keepdims=True), Q / Q.sum(axis=-1, keepdims=True)
+
+    _reg("entropy.kl_divergence", lambda P, Q: entropy.kl_divergence(P, Q), lambda rs, k: pq(rs, k))
+    _reg("entropy.kl_divergence/zeros", lambda P, Q: entropy.kl_divergence(P, Q), lambda rs, k: pq(rs, k, True))
+    _reg("entropy.kl_divergence/base_e", lambda P, Q: entropy.kl_divergence(P, Q, base=np.e),
+         lambda rs, k: pq(rs, k, k > 0))
+    _reg("entropy.kl_divergence/base10", lambda P, Q: entropy.kl_divergence(P, Q, base=10),
+         lambda rs, k: pq(rs, k, True))
+    _reg("entropy.kl_divergence/2d", lambda P, Q: entropy.kl_divergence(P, Q), lambda rs, k: pq(rs, k, k > 0, (3, 4)))
+    _reg("entropy.kl_divergence/2d_zeros_base3", lambda P, Q: entropy.kl_divergence(P, Q, base=3.0),
+         lambda rs, k: pq(rs, k, True, (4, 5)))
+    _reg("entropy.kl_divergence/lists", lambda P, Q: entropy.kl_divergence(P, Q),
+         lambda rs, k: tuple(x.tolist() for x in pq(rs, k, True)))
+    _reg("entropy.js_divergence", lambda P, Q: entropy.js_divergence(P, Q), lambda rs, k: pq(rs, k))
+    _reg("entropy.js_divergence/zeros", lambda P, Q: entropy.js_divergence(P, Q), lambda rs, k: pq(rs, k, True))
+    _reg("entropy.js_divergence/2d", lambda P, Q: entropy.js_divergence(P, Q), lambda rs, k: pq(rs, k, True, (3, 5)))
+
+    def two_T(rs, k, n=4):
+        P = _tprob(rs, n)
+        Q = _tprob(rs, n)
+        if k:
+            P[0, 2] = 0.0
+            P[0] /= P[0].sum()
+        return P, Q
+
+    _reg("entropy.relative_entropy_per_state", lambda P, Q: entropy.relative_entropy_per_state(P, Q), two_T)
+    _reg("entropy.relative_entropy_per_state/subset_base_e",
+         lambda P, Q, sub: entropy.relative_entropy_per_state(P, Q, state_subset=sub, base=np.e, weights=2.0),
+         lambda rs, k: two_T(rs, k) + (np.array([0, 2]),))
+    _reg("entropy.relative_entropy_per_state/assignments",
+         lambda P, a: entropy.relative_entropy_per_state(P, assignments=a),
+         lambda rs, k: (_tprob(rs, 4), _padded(rs, 3, 4)))
+    _reg("entropy.relative_entropy_per_state/assignments_lag2_transpose",
+         lambda P, a: entropy.relative_entropy_per_state(P, assignments=a, lag_time=2, builder=builders.transpose,
+                                                         prior_counts=0.5),
+         lambda rs, k: (_tprob(rs, 4), _padded(rs, 3, 4)))
+    _reg("entropy.relative_entropy_msm", lambda P, Q: entropy.relative_entropy_msm(P, Q), two_T)
+    _reg("entropy.relative_entropy_msm/populations",
+         lambda P, Q, pi: entropy.relative_entropy_msm(P, Q, populations=pi),
+         lambda rs, k: two_T(rs, k) + ((lambda p: p / p.sum())(rs.rand(4) + 0.1),))
+    _reg("entropy.relative_entropy_msm/subset",
+         lambda P, Q, sub: entropy.relative_entropy_msm(P, Q, state_subset=sub),
+         lambda rs, k: two_T(rs, k) + (np.array([1, 3]),))
+    _reg("entropy.relative_entropy_msm/assignments",
+         lambda P, a: entropy.relative_entropy_msm(P, assignments=a),
+         lambda rs, k: (_tprob(rs, 4), _padded(rs, 3, 4)))
+    _reg("entropy.Q_from_assignments", lambda a: entropy.Q_from_assignments(a, n_states=5),
+         lambda rs, k: (_padded(rs, 3, 4),))
+    _reg("entropy.Q_from_assignments/ragged_mle",
+         lambda a: entropy.Q_from_assignments(a, lag_time=2, builder=builders.mle, prior_counts=1),
+         lambda rs, k: (_assigns(rs, 3, 3),))
+    _reg("entropy.energy_to_probability", lambda u: entropy.energy_to_probability(u),
+         lambda rs, k: (rs.rand(6) * 10 - 5,))
+    _reg("entropy.energy_to_probability/kT", lambda u: entropy.energy_to_probability(u, kT=0.6),
+         lambda rs, k: (rs.randint(-4, 5, size=6),))
+
+
+# ================================================================== info_theory.mutual_info / libinfo / exposons
+@_family
+def _fam_mutual_info():
+    from enspara.info_theory import mutual_info, libinfo, exposons
+
+    def jc_of(rs, k, T=30, F=3, S=3, empty=False):
         X = rs.randint(0, S, size=(T, F))
-        from enspara.info_theory import mutual_info
-        jc = mutual_info.joint_counts(X, n_x=S, n_y=S) if False else None
         jc = np.zeros((F, F, S, S), dtype=int)
         for t in range(T):
             for a in range(F):
                 for b in range(F):
                     jc[a, b, X[t, a], X[t, b]] += 1
-        if base.endswith("empty_pair"):
+        if empty:
             jc[0, 1] = 0                                # a feature pair that was never observed together
             jc[1, 0] = 0
-        return (jc,)
-    if base == "mutual_info.joint_counts":
-        return (rs.randint(0, 3, size=(20, 3)), rs.randint(0, 2, size=(20, 2)), 3, 2)
-    if base == "mutual_info.mi_matrix":
-        Xs = [rs.randint(0, 3, size=(15, 3)) for _ in range(2)]
-        Ys = [rs.randint(0, 2, size=(15, 3)) for _ in range(2)]
-        return (Xs, Ys, [3, 3, 3], [2, 2, 2])
-    if base == "mutual_info.weighted_mi":
-        f = rs.randint(0, 3, size=(20, 3))
-        w = rs.rand(20)
-        return (f, w / w.sum())
-    if base == "mutual_info.mi_to_nmi_apc":
-        m = rs.rand(4, 4)
-        return ((m + m.T) / 2,)
-    if base == "libinfo.matrix_bincount2d":
-        return (rs.randint(0, 3, size=(25, 3)).astype(np.int32), rs.randint(0, 4, size=(25, 2)).astype(np.int32), 3, 4)
-    if base == "libinfo.bincount2d":
-        return (rs.randint(0, 3, size=25).astype(np.int64), rs.randint(0, 4, size=25).astype(np.int64), 3, 4)
-    if base.startswith("builders."):
-        C = _counts(rs)
-        if name.endswith("/csr"):
-            C = sp.csr_matrix(C)
-        elif name.endswith("/lil"):
-            C = sp.lil_matrix(C)
-        return (C,)
-    if base == "msm.assigns_to_counts":
-        return (_assigns(rs), 1 + k % 2)
-    if base == "msm.trim_disconnected":
+        return jc
+
+    _reg("mutual_info.mutual_information", lambda jc: mutual_info.mutual_information(jc),
+         lambda rs, k: (jc_of(rs, k),))
+    _reg("mutual_info.mutual_information_empty_pair", lambda jc: mutual_info.mutual_information(jc),
+         lambda rs, k: (jc_of(rs, k, empty=True),))
+    _reg("mutual_info.mutual_information/uint32", lambda jc: mutual_info.mutual_information(jc),
+         lambda rs, k: (jc_of(rs, k, empty=k > 0).astype(np.uint32),))
+    _reg("mutual_info.mutual_information/float", lambda jc: mutual_info.mutual_information(jc),
+         lambda rs, k: (jc_of(rs, k, empty=True).astype(float),))
+    _reg("mutual_info.mutual_information/single", lambda jc: mutual_info.mutual_information(jc),
+         lambda rs, k: (jc_of(rs, k, F=2, S=4)[:1, 1:],))          # a non-contiguous 1 x 1 x S x S view
+    _reg("mutual_info.mutual_information/F", lambda jc: mutual_info.mutual_information(jc),
+         lambda rs, k: (np.asfortranarray(jc_of(rs, k, empty=True)),))
+
+    def XY(rs, k, dx=np.int64, dy=np.int64, T=20):
+        return rs.randint(0, 3, size=(T, 3)).astype(dx), rs.randint(0, 2, size=(T, 2)).astype(dy)
+
+    _reg("mutual_info.joint_counts", lambda X, Y, nx, ny: mutual_info.joint_counts(X, Y, nx, ny),
+         lambda rs, k: XY(rs, k) + (3, 2))
+    _reg("mutual_info.joint_counts/X_only", lambda X: mutual_info.joint_counts(X), lambda rs, k: XY(rs, k)[:1])
+    _reg("mutual_info.joint_counts/X_only_nx", lambda X: mutual_info.joint_counts(X, n_x=5), lambda rs, k: XY(rs, k)[:1])
+    _reg("mutual_info.joint_counts/no_n", lambda X, Y: mutual_info.joint_counts(X, Y), lambda rs, k: XY(rs, k))
+    _reg("mutual_info.joint_counts/larger_n", lambda X, Y: mutual_info.joint_counts(X, Y, 4, 5), lambda rs, k: XY(rs, k))
+    _reg("mutual_info.joint_counts/1d", lambda X, Y: mutual_info.joint_counts(X, Y, 3, 2),
+         lambda rs, k: tuple(np.ascontiguousarray(a[:, 0]) for a in XY(rs, k)))
+    _reg("mutual_info.joint_counts/mixed_dtypes", lambda X, Y: mutual_info.joint_counts(X, Y, 3, 2),
+         lambda rs, k: XY(rs, k, np.int32, np.int64) if k % 2 else XY(rs, k, np.int64, np.int16))
+    for dt in ("int8", "int16", "int32", "uint8", "uint16", "uint32", "uint64"):
+        _reg("mutual_info.joint_counts/" + dt, lambda X, Y: mutual_info.joint_counts(X, Y, 3, 2),
+             (lambda dt: lambda rs, k: XY(rs, k, dt, dt))(np.dtype(dt)))
+    _reg("mutual_info.joint_counts/F", lambda X, Y: mutual_info.joint_counts(X, Y, 3, 2),
+         lambda rs, k: tuple(np.asfortranarray(a) for a in XY(rs, k)))
+    _reg("mutual_info.joint_counts/strided", lambda X, Y: mutual_info.joint_counts(X, Y, 3, 2),
+         lambda rs, k: tuple(a[::2] for a in XY(rs, k, T=30)))
+
+    def XsYs(rs, k, nt=2):
+        Xs = [rs.randint(0, 3, size=(15, 3)) for _ in range(nt)]
+        Ys = [rs.randint(0, 2, size=(15, 3)) for _ in range(nt)]
+        return Xs, Ys
+
+    _reg("mutual_info.mi_matrix", lambda Xs, Ys, nx, ny: mutual_info.mi_matrix(Xs, Ys, nx, ny),
+         lambda rs, k: XsYs(rs, k) + ([3, 3, 3], [2, 2, 2]))
+    _reg("mutual_info.mi_matrix/nonorm", lambda Xs, Ys, nx, ny: mutual_info.mi_matrix(Xs, Ys, nx, ny, normalize=False),
+         lambda rs, k: XsYs(rs, k, 3) + ([3, 3, 3], [2, 2, 2]))
+    _reg("mutual_info.mi_matrix/arrays_n", lambda Xs, Ys, nx, ny: mutual_info.mi_matrix(Xs, Ys, nx, ny),
+         lambda rs, k: XsYs(rs, k) + (np.array([3, 4, 3]), np.array([2, 3, 2])))
+    _reg("mutual_info.mi_matrix/self", lambda Xs, nx: mutual_info.mi_matrix(Xs, Xs, nx, nx),
+         lambda rs, k: (XsYs(rs, k, 1 + k)[0], [3, 3, 3]))
+    _reg("mutual_info.mi_matrix/int16_one_traj", lambda Xs, Ys, nx, ny: mutual_info.mi_matrix(Xs, Ys, nx, ny, normalize=False),
+         lambda rs, k: tuple([a.astype(np.int16) for a in L] for L in XsYs(rs, k, 1)) + ([3, 3, 3], [2, 2, 2]))
+    _reg("mutual_info.mi_matrix_serial",
+         lambda Xs, Ys, nx, ny: mutual_info.mi_matrix_serial(Xs, Ys, nx, ny),
+         lambda rs, k: (lambda Xs: (Xs, Xs, [3, 3, 3], [3, 3, 3]))(XsYs(rs, k)[0]))
+    _reg("mutual_info.mi_matrix_serial/nonorm",
+         lambda Xs, Ys, nx, ny: mutual_info.mi_matrix_serial(Xs, Ys, nx, ny, normalize=False),
+         lambda rs, k: (lambda Xs: (Xs, Xs, [3, 3, 3], [3, 3, 3]))(XsYs(rs, k)[0]))
+
+    def fw(rs, k, T=20, norm=True):
+        f = rs.randint(0, 3, size=(T, 3))
+        f[:, 2] = rs.randint(0, 2, size=T)               # a feature that never takes the last state
+        w = rs.rand(T)
+        if k:
+            w[rs.randint(0, T, size=3)] = 0.0            # frames of weight zero
+        return f, (w / w.sum() if norm else w)
+
+    _reg("mutual_info.weighted_mi", lambda f, w: mutual_info.weighted_mi(f, w), lambda rs, k: fw(rs, k))
+    _reg("mutual_info.weighted_mi/nonorm", lambda f, w: mutual_info.weighted_mi(f, w, normalize=False),
+         lambda rs, k: fw(rs, k))
+    _reg("mutual_info.weighted_mi/n_feature_states",
+         lambda f, w, n: mutual_info.weighted_mi(f, w, n_feature_states=n),
+         lambda rs, k: fw(rs, k) + (([3, 3, 2], np.array([3, 4, 2]), np.array([4, 3, 3], dtype=np.int16))[k % 3],))
+    _reg("mutual_info.weighted_mi/n_feature_states_nonorm",
+         lambda f, w, n: mutual_info.weighted_mi(f, w, n_feature_states=n, normalize=False),
+         lambda rs, k: fw(rs, k) + ([3, 3, 3],))
+    _reg("mutual_info.weighted_mi/unnormalised_weights", lambda f, w: mutual_info.weighted_mi(f, w),
+         lambda rs, k: fw(rs, k, norm=False))
+    _reg("mutual_info.weighted_mi/int32_F", lambda f, w: mutual_info.weighted_mi(f, w),
+         lambda rs, k: (lambda f, w: (np.asfortranarray(f.astype(np.int32)), w))(*fw(rs, k)))
+    _reg("mutual_info.weighted_mi/bool", lambda f, w: mutual_info.weighted_mi(f, w),
+         lambda rs, k: (lambda f, w: (f > 0, w))(*fw(rs, k)))
+
+    def symm(rs, k, n=4, zero_diag=False):
+        m = rs.rand(n, n)
+        m = (m + m.T) / 2
+        m[np.diag_indices(n)] += 1.0
+        if zero_diag:
+            m[1, 1] = 0.0
+            m[0, 2] = m[2, 0] = 0.0
+        return m
+
+    _reg("mutual_info.mi_to_nmi_apc", lambda m: mutual_info.mi_to_nmi_apc(m), lambda rs, k: (symm(rs, k),))
+    _reg("mutual_info.mi_to_nmi_apc/H_marginal", lambda m, H: mutual_info.mi_to_nmi_apc(m, H),
+         lambda rs, k: (symm(rs, k), rs.rand(4) + 1.0))
+    _reg("mutual_info.mi_to_nmi_apc/zero_entries", lambda m: mutual_info.mi_to_nmi_apc(m),
+         lambda rs, k: (symm(rs, k, 5, True),))
+    _reg("mutual_info.mi_to_nmi", lambda m: mutual_info.mi_to_nmi(m), lambda rs, k: (symm(rs, k),))
+    _reg("mutual_info.mi_to_nmi/H_marginal", lambda m, H: mutual_info.mi_to_nmi(m, H),
+         lambda rs, k: (symm(rs, k), (rs.rand(4) + 1.0) if k % 2 else list(rs.rand(4) + 1.0)))
+    _reg("mutual_info.mi_to_nmi/zero_entries", lambda m: mutual_info.mi_to_nmi(m), lambda rs, k: (symm(rs, k, 5, True),))
+    _reg("mutual_info.mi_to_apc", lambda m: mutual_info.mi_to_apc(m), lambda rs, k: (symm(rs, k),))
+    _reg("mutual_info.mi_to_apc/F", lambda m: mutual_info.mi_to_apc(m), lambda rs, k: (np.asfortranarray(symm(rs, k, 5)),))
+    _reg("mutual_info.channel_capacity_normalization/int",
+         lambda m: mutual_info.channel_capacity_normalization(m, 3, 2), lambda rs, k: (rs.rand(3, 4),))
+    _reg("mutual_info.channel_capacity_normalization/arrays",
+         lambda m, nx, ny: mutual_info.channel_capacity_normalization(m, nx, ny),
+         lambda rs, k: (rs.rand(3, 4), np.array([2, 3, 4]), np.array([3, 2, 5, 2])))
+    _reg("mutual_info.channel_capacity_normalization/lists_F",
+         lambda m, nx, ny: mutual_info.channel_capacity_normalization(m, nx, ny),
+         lambda rs, k: (np.asfortranarray(rs.rand(2, 3)), [2, 4], [3, 3, 2]))
+    _reg("mutual_info.channel_capacity_normalization/int16",
+         lambda m, nx, ny: mutual_info.channel_capacity_normalization(m, nx, ny),
+         lambda rs, k: (rs.rand(3, 3), np.array([2, 3, 4], dtype=np.int16), 3))
+    _reg("mutual_info.deconvolute_network", lambda G: mutual_info.deconvolute_network(G),
+         lambda rs, k: (symm(rs, k) / 8,))
+    _reg("mutual_info.deconvolute_network/F", lambda G: mutual_info.deconvolute_network(G),
+         lambda rs, k: (np.asfortranarray(symm(rs, k, 5) / 10),))
+
+    # ---- libinfo kernels (OpenMP)
+    def ab2(rs, k, dt, T=25):
+        return rs.randint(0, 3, size=(T, 3)).astype(dt), rs.randint(0, 4, size=(T, 2)).astype(dt), 3, 4
+
+    def ab1(rs, k, dt, T=25):
+        return rs.randint(0, 3, size=T).astype(dt), rs.randint(0, 4, size=T).astype(dt), 3, 4
+
+    _reg("libinfo.matrix_bincount2d", lambda a, b, na, nb: libinfo.matrix_bincount2d(a, b, na, nb),
+         lambda rs, k: ab2(rs, k, np.int32))
+    _reg("libinfo.bincount2d", lambda a, b, na, nb: libinfo.bincount2d(a, b, na, nb), lambda rs, k: ab1(rs, k, np.int64))
+    for dt in ("int8", "int16", "int64", "uint8", "uint16", "uint32", "uint64"):
+        _reg("libinfo.matrix_bincount2d/" + dt, lambda a, b, na, nb: libinfo.matrix_bincount2d(a, b, na, nb),
+             (lambda dt: lambda rs, k: ab2(rs, k, dt))(np.dtype(dt)))
+    for dt in ("int8", "int16", "int32", "uint8", "uint16", "uint32", "uint64"):
+        _reg("libinfo.bincount2d/" + dt, lambda a, b, na, nb: libinfo.bincount2d(a, b, na, nb),
+             (lambda dt: lambda rs, k: ab1(rs, k, dt))(np.dtype(dt)))
+    _reg("libinfo.matrix_bincount2d/F", lambda a, b, na, nb: libinfo.matrix_bincount2d(a, b, na, nb),
+         lambda rs, k: (lambda a, b, na, nb: (np.asfortranarray(a), np.asfortranarray(b), na, nb))(*ab2(rs, k, np.int64)))
+    _reg("libinfo.matrix_bincount2d/strided", lambda a, b, na, nb: libinfo.matrix_bincount2d(a, b, na, nb),
+         lambda rs, k: (lambda a, b, na, nb: (a[::2], b[1::2], na, nb))(*ab2(rs, k, np.int32, 40)))
+    _reg("libinfo.matrix_bincount2d/column_views", lambda a, b, na, nb: libinfo.matrix_bincount2d(a, b, na, nb),
+         lambda rs, k: (lambda a, b, na, nb: (a[:, ::2], b[:, :1], na, nb))(*ab2(rs, k, np.int16)))
+    _reg("libinfo.bincount2d/strided", lambda a, b, na, nb: libinfo.bincount2d(a, b, na, nb),
+         lambda rs, k: (lambda a, b, na, nb: (a[::3], b[::3], na, nb))(*ab1(rs, k, np.int32, 60)))
+    _reg("libinfo.bincount2d/empty", lambda a, b, na, nb: libinfo.bincount2d(a, b, na, nb),
+         lambda rs, k: (np.zeros(0, dtype=np.int64), np.zeros(0, dtype=np.int64), 2 + k, 3))
+
+    # exposons_from_sasas: weighted_mi + sklearn AffinityPropagation with random_state=0 (deterministic)
+    def sasas(rs, k):
+        s = rs.rand(16, 4) * 0.05
+        s[:, 1] = s[:, 0] + rs.rand(16) * 0.005
+        w = rs.rand(16) + 0.1
+        return s, w / w.sum()
+
+    _reg("exposons.exposons_from_sasas", lambda s, w: exposons.exposons_from_sasas(s, 0.9, w, 0.02), sasas)
+
+
+# ================================================================== msm.builders
+@_family
+def _fam_builders():
+    from enspara.msm import builders
+    conts = ["", "int", "int32", "F", "strided", "csr", "csr_int", "csc", "csc_int", "coo", "coo_int", "lil", "lil_int",
+             "dok", "dok_int"]
+    for bn in ("normalize", "transpose", "mle"):
+        f = getattr(builders, bn)
+        for cont in conts:
+            nm = "builders.%s%s" % (bn, "/" + cont if cont else "")
+            _reg(nm, (lambda f: lambda C: f(C))(f),
+                 (lambda cont: lambda rs, k: (_container(_counts(rs, 4 + (k == 2)), cont),))(cont))
+        for cont in ("", "int", "csr", "lil_int", "coo"):
+            tag = cont or "dense"
+            argf = (lambda cont: lambda rs, k: (_container(_counts(rs), cont),))(cont)
+            _reg("builders.%s/%s,prior_counts=1" % (bn, tag), (lambda f: lambda C: f(C, prior_counts=1))(f), argf)
+            _reg("builders.%s/%s,prior_counts=0.25" % (bn, tag), (lambda f: lambda C: f(C, prior_counts=0.25))(f), argf)
+            _reg("builders.%s/%s,calculate_eq_probs=False" % (bn, tag),
+                 (lambda f: lambda C: f(C, calculate_eq_probs=False))(f), argf)
+        _reg("builders.%s/dense,prior_counts=matrix" % bn, (lambda f: lambda C, P: f(C, prior_counts=P))(f),
+             lambda rs, k: (_counts(rs), rs.rand(4, 4)))
+        # EXCLUDED for mle (genuine defect, reported): builders.mle(csr_matrix, prior_counts=<ndarray>) raises ValueError
+        # ('setting an array element with a sequence'): sparse + dense gives an np.matrix, which is neither sparse
+        # nor accepted by _prinz_mle_py.  normalize and transpose accept it.
+        if bn != "mle":
+            _reg("builders.%s/csr,prior_counts=matrix,calculate_eq_probs=False" % bn,
+                 (lambda f: lambda C, P: f(C, prior_counts=P, calculate_eq_probs=False))(f),
+                 lambda rs, k: (sp.csr_matrix(_counts(rs)), np.ones((4, 4)) / 4))
+    # scipy sparse ARRAYS (csr_array / coo_array): mle and trim_disconnected accept them.
+    # EXCLUDED (genuine defect, reported): builders.normalize / builders.transpose raise AxisError for every scipy
+    # sparse array (_row_normalize tests isspmatrix, which is False for sparse arrays, and falls into the dense branch).
+    for cont in ("csra", "cooa"):
+        _reg("builders.mle/%s" % cont, lambda C: builders.mle(C), (lambda cont: lambda rs, k: (_container(_counts(rs), cont),))(cont))
+    # a state without counts: normalize leaves a zero row (documented: no ergodicity guarantee)
+    for cont in ("", "csr", "lil"):
+        _reg("builders.normalize/zero_row%s,calculate_eq_probs=False" % ("_" + cont if cont else ""),
+             lambda C: builders.normalize(C, calculate_eq_probs=False),
+             (lambda cont: lambda rs, k: (_container((lambda C: (C.__setitem__((2, slice(None)), 0), C)[1])(_counts(rs, 5)), cont),))(cont))
+    _reg("builders._row_normalize", lambda C: builders._row_normalize(C), lambda rs, k: (_counts(rs, 4).astype(int),))
+    _reg("builders._row_normalize/csc", lambda C: builders._row_normalize(C), lambda rs, k: (sp.csc_matrix(_counts(rs, 4)),))
+    _reg("builders._prinz_mle_py", lambda C: builders._prinz_mle_py(C), lambda rs, k: (_counts(rs, 4),))
+    _reg("builders._prinz_mle_py/tol", lambda C: builders._prinz_mle_py(C, tol=1e-4, max_iter=50),
+         lambda rs, k: (_counts(rs, 5),))
+
+
+# ================================================================== msm.transition_matrices / MSM / timescales / synthetic_data / bace
+@_family
+def _fam_msm():
+    from enspara.msm import builders, MSM, synthetic_data, timescales, bace
+    from enspara.msm import transition_matrices as tm
+
+    # ---- assigns_to_counts
+    _reg("msm.assigns_to_counts", lambda a, lag: tm.assigns_to_counts(a, lag), lambda rs, k: (_assigns(rs), 1 + k % 2))
+    _reg("msm.assigns_to_counts/sliding_window=False", lambda a, lag: tm.assigns_to_counts(a, lag, sliding_window=False),
+         lambda rs, k: (_assigns(rs), 1 + (k + 1) % 3))
+    _reg("msm.assigns_to_counts/max_n_states", lambda a, lag: tm.assigns_to_counts(a, lag, max_n_states=6),
+         lambda rs, k: (_assigns(rs), 1 + k % 2))
+    _reg("msm.assigns_to_counts/padded", lambda a, lag: tm.assigns_to_counts(a, lag), lambda rs, k: (_padded(rs), 1 + k % 3))
+    _reg("msm.assigns_to_counts/padded,sliding_window=False,max_n_states",
+         lambda a, lag: tm.assigns_to_counts(a, lag, max_n_states=5, sliding_window=False),
+         lambda rs, k: (_padded(rs), 2 + k % 2))
+    _reg("msm.assigns_to_counts/padded_int32_F", lambda a, lag: tm.assigns_to_counts(a, lag),
+         lambda rs, k: (np.asfortranarray(_padded(rs).astype(np.int32)), 1 + k % 2))
+    _reg("msm.assigns_to_counts/one_row", lambda a, lag: tm.assigns_to_counts(a, lag),
+         lambda rs, k: (rs.randint(0, 4, size=15).reshape(1, -1), 1 + k))
+    _reg("msm.assigns_to_counts/numpy_int_lag", lambda a, lag: tm.assigns_to_counts(a, lag),
+         lambda rs, k: (_padded(rs), np.int64(1 + k % 2)))
+
+    # ---- trim_disconnected: every form really has states outside the main component
+    def trim(**kw):
+        return lambda C: tm.trim_disconnected(C, **kw)
+
+    for cont in ("int", "float", "int32", "f32", "F", "Fint", "strided", "csr", "csr_int", "csc_int", "coo", "coo_int",
+                 "lil", "lil_int", "dok_int"):
+        argf = (lambda cont: lambda rs, k: (_container(_trim_counts(rs, k), cont),))(cont)
+        _reg("msm.trim_disconnected/%s" % cont, trim(), argf)
+        _reg("msm.trim_disconnected/%s,renumber_states=False" % cont, trim(renumber_states=False), argf)
+        _reg("msm.trim_disconnected/%s,threshold=2" % cont, trim(threshold=2), argf)
+        if cont in ("int", "float", "F", "csr_int", "lil", "coo_int"):
+            _reg("msm.trim_disconnected/%s,threshold=2,renumber_states=False" % cont,
+                 trim(threshold=2, renumber_states=False), argf)
+            _reg("msm.trim_disconnected/%s,threshold=3" % cont, trim(threshold=3), argf)
+
+    for cont in ("csra", "cooa_int"):
+        argf = (lambda cont: lambda rs, k: (_container(_trim_counts(rs, k), cont),))(cont)
+        _reg("msm.trim_disconnected/%s" % cont, trim(), argf)
+        _reg("msm.trim_disconnected/%s,renumber_states=False,threshold=2" % cont, trim(renumber_states=False, threshold=2), argf)
+
+    def old_trim_arg(rs, k):                            # the form of the original alphabet
         C = _counts(rs, 5, 0.6)
         C[4, :] = 0
         C[4, 4] = 3
         return (C,)
-    if base in ("msm.eigenspectrum", "msm.eq_probs"):
-        return (_tprob(rs),)
-    if base == "msm.synthetic_ensemble":
+    _reg("msm.trim_disconnected", trim(), old_trim_arg)
+    _reg("msm.trim_disconnected/connected,renumber_states=False", trim(renumber_states=False),
+         lambda rs, k: (_counts(rs, 5),))
+    _reg("msm.trim_disconnected/from_assigns_to_counts", lambda a: tm.trim_disconnected(tm.assigns_to_counts(a, 1, max_n_states=6)),
+         lambda rs, k: (_padded(rs),))
+
+    # ---- eigenspectrum / eq_probs
+    _reg("msm.eigenspectrum", lambda T: tm.eigenspectrum(T), lambda rs, k: (_tprob(rs),))
+    _reg("msm.eigenspectrum/n_eigs", lambda T, n: tm.eigenspectrum(T, n_eigs=n), lambda rs, k: (_tprob(rs), 2 + k))
+    _reg("msm.eigenspectrum/left=False", lambda T: tm.eigenspectrum(T, left=False), lambda rs, k: (_tprob(rs),))
+    _reg("msm.eigenspectrum/left=False,n_eigs", lambda T, n: tm.eigenspectrum(T, n_eigs=n, left=False),
+         lambda rs, k: (_tprob(rs, 6), 2 + k))
+    for cont in ("csr", "csc", "coo", "lil", "F"):
+        _reg("msm.eigenspectrum/%s" % cont, lambda T: tm.eigenspectrum(T),
+             (lambda cont: lambda rs, k: (_container(_tprob(rs), cont),))(cont))
+    _reg("msm.eigenspectrum/csr,n_eigs,left=False", lambda T, n: tm.eigenspectrum(T, n_eigs=n, left=False),
+         lambda rs, k: (sp.csr_matrix(_tprob(rs, 6)), 3 + k))
+    _reg("msm.eigenspectrum/reversible", lambda T: tm.eigenspectrum(T, n_eigs=3), lambda rs, k: (_rev_tprob(rs)[0],))
+    _reg("msm.eq_probs", lambda T: tm.eq_probs(T), lambda rs, k: (_tprob(rs),))
+    for cont in ("csr", "csc", "lil", "coo", "F"):
+        _reg("msm.eq_probs/%s" % cont, lambda T: tm.eq_probs(T),
+             (lambda cont: lambda rs, k: (_container(_tprob(rs), cont),))(cont))
+
+    # ---- synthetic data
+    # SKIPPED: synthetic_data.synthetic_trajectory draws from np.random.default_rng() with no seed argument:
+    # randomised by design, its result is not a function of its arguments.
+    def ens(rs, k, cont=""):
         T = _tprob(rs)
         p0 = np.zeros(len(T))
         p0[k % len(T)] = 1.0
-        return (T, p0, 5)
-    if base == "msm.MSM.fit":
+        return (_container(T, cont), p0, 5)
+    _reg("msm.synthetic_ensemble", lambda T, p0, n: synthetic_data.synthetic_ensemble(T, p0, n), ens)
+    _reg("msm.synthetic_ensemble/csr", lambda T, p0, n: synthetic_data.synthetic_ensemble(T, p0, n),
+         lambda rs, k: ens(rs, k, "csr"))
+    _reg("msm.synthetic_ensemble/lil", lambda T, p0, n: synthetic_data.synthetic_ensemble(T, p0, n),
+         lambda rs, k: ens(rs, k, "lil"))
+    _reg("msm.synthetic_ensemble/observable", lambda T, p0, n, o: synthetic_data.synthetic_ensemble(T, p0, n, o),
+         lambda rs, k: ens(rs, k, "csc" if k == 1 else "") + (rs.rand(5),))
+    _reg("msm.synthetic_ensemble/mixed_p0_F", lambda T, p0, n: synthetic_data.synthetic_ensemble(T, p0, n),
+         lambda rs, k: (np.asfortranarray(_tprob(rs)), (lambda p: p / p.sum())(rs.rand(5)), 2 + k))
+
+    # ---- implied timescales
+    def its_args(rs, k):
+        return (_padded(rs, 4, 4, 14), [1, 2, 3][:2 + k % 2])
+    for mname in ("normalize", "transpose", "mle"):
+        m = getattr(builders, mname)
+        _reg("msm.implied_timescales/%s" % mname, (lambda m: lambda a, lags: timescales.implied_timescales(a, lags, m))(m), its_args)
+    _reg("msm.implied_timescales/n_times", lambda a, lags: timescales.implied_timescales(a, lags, builders.transpose, n_times=2),
+         its_args)
+    _reg("msm.implied_timescales/trim,sliding_window=False",
+         lambda a, lags: timescales.implied_timescales(a, lags, builders.normalize, n_times=2, sliding_window=False, trim=True),
+         its_args)
+    _reg("msm.implied_timescales/ragged", lambda a, lags: timescales.implied_timescales(a, lags, builders.transpose, n_times=2),
+         lambda rs, k: (_assigns(rs, 4, 4), [1, 2]))
+    _reg("msm.calc_imp_times", lambda a: timescales.calc_imp_times(a, 2, 4, 2, builders.transpose, True, False),
+         lambda rs, k: (_padded(rs, 4, 4, 14),))
+    _reg("msm.calc_imp_times/trim,no_sliding", lambda a: timescales.calc_imp_times(a, 1, 5, 1, builders.normalize, False, True),
+         lambda rs, k: (_padded(rs, 4, 4, 14),))
+
+    # ---- MSM estimator
+    def fit(**kw):
+        def f(a, method):
+            kw.setdefault("lag_time", 1)
+            m = MSM(method=method, **kw)
+            m.fit(a)
+            return (m.tcounts_, m.tprobs_, m.eq_probs_, m.mapping_, m.n_states_)
+        return f
+
+    def fit_args(rs, k):
         return (_assigns(rs, 4, 3), ["normalize", "transpose", "mle"][k % 3])
-    if base in ("tpt.committors", "tpt.committors/csr"):
-        T = _tprob(rs)
-        return (sp.csr_matrix(T) if name.endswith("csr") else T, [0], [len(T) - 1])
-    if base == "tpt.mfpts":
-        return (_tprob(rs), None if k == 0 else [1])
-    if base in ("tpt.reactive_fluxes", "tpt.net_fluxes", "tpt.reactive_populations"):
+
+    def fit_args_p(rs, k):
+        return (_padded(rs, 4, 4), ["transpose", "mle", "normalize"][k % 3])
+    _reg("msm.MSM.fit", fit(trim=True), fit_args)
+    _reg("msm.MSM.fit/trim=False", fit(trim=False), fit_args)
+    _reg("msm.MSM.fit/sliding_window=False", fit(trim=False, sliding_window=False, lag_time=2), fit_args)
+    _reg("msm.MSM.fit/max_n_states", fit(trim=False, max_n_states=5),        # states without counts: not for mle
+         lambda rs, k: (_assigns(rs, 4, 3), ["normalize", "transpose"][k % 2]))
+    _reg("msm.MSM.fit/max_n_states,trim", fit(trim=True, max_n_states=6), fit_args_p)
+    _reg("msm.MSM.fit/lag_time=3,trim", fit(trim=True, lag_time=3), fit_args_p)
+    _reg("msm.MSM.fit/padded", fit(trim=False), fit_args_p)
+    _reg("msm.MSM.fit/callable_method", lambda a: fit(trim=True)(a, builders.transpose), lambda rs, k: (_padded(rs, 4, 4),))
+    _reg("msm.MSM.from_assignments",
+         lambda a: (lambda m: (m.tcounts_, m.tprobs_, m.eq_probs_, m.mapping_))(
+             MSM.from_assignments(a, lag_time=1, method=builders.normalize)),
+         lambda rs, k: (_padded(rs, 3, 4),))
+
+    # ---- bace helpers
+    def absorb_args(cont):
+        def f(rs, k):
+            C = _counts(rs, 5, 0.5)
+            return (_container(C, cont), [1] if k == 0 else [0, 3] if k == 1 else np.array([2]))
+        return f
+    _reg("bace.absorb", lambda C, s: bace.absorb(C, s), absorb_args(""))
+    _reg("bace.absorb/int", lambda C, s: bace.absorb(C, s), absorb_args("int"))
+    _reg("bace.absorb/csr", lambda C, s: bace.absorb(C, s), absorb_args("csr"))
+    _reg("bace.absorb/csc_int", lambda C, s: bace.absorb(C, s), absorb_args("csc_int"))
+    # EXCLUDED (genuine defect of the pinned tree, reported): bace.absorb(lil_matrix, states) works on the caller's
+    # matrix (`c.tolil()` returns self for a lil_matrix) -- it zeroes the absorbed rows/columns of its argument;
+    # baysean_prune(lil_matrix) and bace(lil_matrix, ...) inherit this.
+    # _reg("bace.absorb/lil", lambda C, s: bace.absorb(C, s), absorb_args("lil"))
+    # _reg("bace.baysean_prune/lil", lambda C: bace.baysean_prune(C), lambda rs, k: (sp.lil_matrix(prune_counts(rs, k)),))
+
+    def prune_counts(rs, k):
+        C = _counts(rs, 5, 0.5) * 30
+        C[4, :] = [0, 0, 0, 1, 1]
+        C[:, 4] = [0, 0, 0, 1, 1]                         # a state with insufficient statistics
+        return C
+    _reg("bace.baysean_prune", lambda C: bace.baysean_prune(C), lambda rs, k: (prune_counts(rs, k),))
+    _reg("bace.baysean_prune/factor", lambda C: bace.baysean_prune(C, factor=np.log(2)), lambda rs, k: (prune_counts(rs, k),))
+    _reg("bace.baysean_prune/csr", lambda C: bace.baysean_prune(C), lambda rs, k: (sp.csr_matrix(prune_counts(rs, k)),))
+    _reg("bace.bace", lambda C: bace.bace(C, 2, n_procs=1), lambda rs, k: (prune_counts(rs, k),))
+    # EXCLUDED (genuine defect with the installed scipy 1.18, reported): bace.bace(<any scipy sparse matrix>, n) raises
+    # ValueError('shape mismatch in assignment') in mergeTwoClosestStates (c[statesKeep, minX] += ... on a lil_matrix),
+    # although bace has explicit sparse branches.
+    # _reg("bace.bace/csr", lambda C: bace.bace(C, 3, n_procs=1), lambda rs, k: (sp.csr_matrix(prune_counts(rs, k)),))
+    # SKIPPED: msm.bootstrap.* resamples with the global numpy RNG inside worker processes (no seed argument).
+
+
+# ================================================================== tpt
+@_family
+def _fam_tpt():
+    from enspara import tpt
+
+    def ss(k, n):
+        """sources / sinks: single, several, as arrays"""
+        if k == 0:
+            return [0], [n - 1]
+        if k == 1:
+            return [0, 1], [n - 1, n - 2]
+        return np.array([1]), np.array([n - 1, 0])
+
+    for cont in ("", "csr", "lil", "csc", "coo", "F"):
+        tag = "/" + cont if cont else ""
+        _reg("tpt.committors" + tag, lambda T, s, t: tpt.committors(T, s, t),
+             (lambda cont: lambda rs, k: (_container(_tprob(rs), cont),) + ss(k, 5))(cont))
+    _reg("tpt.committors/scalar_states", lambda T, s, t: tpt.committors(T, s, t), lambda rs, k: (_tprob(rs, 6), k, 5))
+    _reg("tpt.committors/tuple_states", lambda T, s, t: tpt.committors(T, s, t), lambda rs, k: (_tprob(rs, 6), (0, 2), (5, 3)))
+
+    def mf(rs, k, cont=""):
         T, pi = _rev_tprob(rs)
-        return (T, [0], [len(T) - 1], pi if k % 2 else None)
-    if base in ("tpt.paths", "tpt.top_path"):
-        from enspara import tpt
-        T, pi = _rev_tprob(rs)
-        nf = tpt.net_fluxes(T, [0], [len(T) - 1], pi)
-        return ([0], [len(T) - 1], np.asarray(nf))
-    if base in ("cluster.assign_to_nearest_center",):
-        X = _points(rs)
-        return (X, X[[0, 3, 5]], "euclidean")
-    if base == "cluster.find_cluster_centers":
-        return (rs.randint(0, 3, size=12), rs.rand(12))
-    if base in ("cluster.kcenters", "cluster.kcenters_ti", "cluster.kmedoids", "cluster.hybrid"):
+        return _container(T, cont), pi
+    _reg("tpt.mfpts", lambda T, sinks: tpt.mfpts(T, sinks=sinks), lambda rs, k: (_tprob(rs), None if k == 0 else [1]))
+    _reg("tpt.mfpts/several_sinks", lambda T, sinks: tpt.mfpts(T, sinks=sinks),
+         lambda rs, k: (_tprob(rs), ([1, 3], np.array([0, 4]), (2, 3, 4))[k]))
+    _reg("tpt.mfpts/lagtime", lambda T, sinks: tpt.mfpts(T, sinks=sinks, lagtime=2.5),
+         lambda rs, k: (_tprob(rs), None if k == 1 else [1, 2]))
+    _reg("tpt.mfpts/populations", lambda T, pi: tpt.mfpts(T, populations=pi), lambda rs, k: mf(rs, k))
+    _reg("tpt.mfpts/populations,lagtime,sinks", lambda T, pi: tpt.mfpts(T, sinks=[0, 2], populations=pi, lagtime=10),
+         lambda rs, k: mf(rs, k))
+    for cont in ("csr", "csc", "lil", "coo"):
+        _reg("tpt.mfpts/%s" % cont, lambda T, sinks: tpt.mfpts(T, sinks=sinks),
+             (lambda cont: lambda rs, k: (_container(_tprob(rs), cont), None if k == 0 else [1, 2][:k]))(cont))
+    _reg("tpt.mfpts/csr,populations,lagtime", lambda T, pi: tpt.mfpts(T, populations=pi, lagtime=0.5),
+         lambda rs, k: mf(rs, k, "csr"))
+
+    def flux_args(cont):
+        def f(rs, k):
+            T, pi = _rev_tprob(rs)
+            s, t = ss(k, len(T))
+            return (_container(T, cont), s, t, pi if k % 2 else None)
+        return f
+
+    def flux_args_pop(cont):
+        def f(rs, k):
+            T, pi = _rev_tprob(rs)
+            s, t = ss(k, len(T))
+            return (_container(T, cont), s, t, pi)
+        return f
+    for fn in ("reactive_fluxes", "net_fluxes", "reactive_populations"):
+        f = getattr(tpt, fn)
+        call = (lambda f: lambda T, s, t, p: f(T, s, t, populations=p))(f)
+        _reg("tpt.%s" % fn, call, flux_args(""))
+        for cont in ("csr", "csc", "lil", "coo", "F"):
+            _reg("tpt.%s/%s" % (fn, cont), call, flux_args(cont))
+        _reg("tpt.%s/populations" % fn, call, flux_args_pop(""))
+        _reg("tpt.%s/csr,populations" % fn, call, flux_args_pop("csr"))
+
+    def nf(rs, k, multi=False, n=5):
+        T, pi = _rev_tprob(rs, n)
+        s, t = ss(1 if multi else 0, n)
+        return (s, t, np.asarray(tpt.net_fluxes(T, s, t, pi)))
+    _reg("tpt.paths", lambda s, t, f: tpt.paths(s, t, f, num_paths=3), lambda rs, k: nf(rs, k))
+    _reg("tpt.paths/all", lambda s, t, f: tpt.paths(s, t, f), lambda rs, k: nf(rs, k, n=5 + k % 2))
+    _reg("tpt.paths/num_paths=1", lambda s, t, f: tpt.paths(s, t, f, num_paths=1), lambda rs, k: nf(rs, k))
+    _reg("tpt.paths/flux_cutoff=0.5", lambda s, t, f: tpt.paths(s, t, f, flux_cutoff=0.5), lambda rs, k: nf(rs, k, n=6))
+    _reg("tpt.paths/flux_cutoff=0.9,num_paths=4", lambda s, t, f: tpt.paths(s, t, f, flux_cutoff=0.9, num_paths=4),
+         lambda rs, k: nf(rs, k, n=6))
+    _reg("tpt.paths/bottleneck", lambda s, t, f: tpt.paths(s, t, f, remove_path="bottleneck", num_paths=4),
+         lambda rs, k: nf(rs, k, n=5 + k % 2))
+    _reg("tpt.paths/bottleneck,flux_cutoff=0.7", lambda s, t, f: tpt.paths(s, t, f, remove_path="bottleneck", flux_cutoff=0.7),
+         lambda rs, k: nf(rs, k))
+    _reg("tpt.paths/bottleneck,multi", lambda s, t, f: tpt.paths(s, t, f, remove_path="bottleneck", num_paths=3),
+         lambda rs, k: nf(rs, k, True, 6))
+    _reg("tpt.paths/subtract,multi", lambda s, t, f: tpt.paths(s, t, f, remove_path="subtract", num_paths=5),
+         lambda rs, k: nf(rs, k, True, 6))
+    _reg("tpt.paths/F", lambda s, t, f: tpt.paths(s, t, f, num_paths=3),
+         lambda rs, k: (lambda s, t, f: (s, t, np.asfortranarray(f)))(*nf(rs, k)))
+    _reg("tpt.paths/callable", lambda s, t, f: tpt.paths(s, t, f, remove_path=tpt.path._remove_bottleneck, num_paths=2),
+         lambda rs, k: nf(rs, k))
+    _reg("tpt.top_path", lambda s, t, f: tpt.top_path(s, t, f), lambda rs, k: nf(rs, k))
+    _reg("tpt.top_path/multi", lambda s, t, f: tpt.top_path(s, t, f), lambda rs, k: nf(rs, k, True, 6))
+    _reg("tpt.top_path/array_states", lambda s, t, f: tpt.top_path(s, t, f),
+         lambda rs, k: (lambda s, t, f: (np.array(s), np.array(t), f))(*nf(rs, k)))
+
+
+# ================================================================== cluster
+@_family
+def _fam_cluster():
+    from enspara.cluster import kcenters, kmedoids, hybrid, util as cutil, save_states
+    from enspara.cluster import KCenters, KMedoids, KHybrid
+    from enspara.geometry import libdist
+
+    def proj(r):
+        return (r.center_indices, r.distances, r.assignments, r.centers)
+
+    # ---- util
+    _reg("cluster.assign_to_nearest_center", lambda X, c, m: cutil.assign_to_nearest_center(X, c, cutil._get_distance_method(m)),
+         lambda rs, k: (lambda X: (X, X[[0, 3, 5]], "euclidean"))(_points(rs)))
+    _reg("cluster.assign_to_nearest_center/manhattan_list", lambda X, c: cutil.assign_to_nearest_center(X, c, libdist.manhattan),
+         lambda rs, k: (lambda X: (X, [X[1], X[4] + 0.5]))(_points(rs)))
+    _reg("cluster.assign_to_nearest_center/more_centers_than_frames",
+         lambda X, c: cutil.assign_to_nearest_center(X, c, libdist.euclidean),
+         lambda rs, k: (lambda X: (X[:3 + k], X[2:]))(_points(rs, 12)))
+    _reg("cluster.assign_to_nearest_center/int32", lambda X, c: cutil.assign_to_nearest_center(X, c, libdist.euclidean),
+         lambda rs, k: (lambda X: (X, X[[0, 3, 5]]))(_points(rs).astype(np.int32)))
+    _reg("cluster.assign_to_nearest_center/callable", lambda X, c: cutil.assign_to_nearest_center(
+        X, c, lambda A, b: np.abs(A - b).max(axis=1)), lambda rs, k: (lambda X: (X, X[[2, 7]]))(_points(rs)))
+    # md.Trajectory forms (synthetic, no files): frames vs. centers under md.rmsd; with more centers than frames the
+    # per-frame branch of assign_to_nearest_center is taken
+    # NOT IN THE ALPHABET (reported): with the plain md.rmsd metric (metric='rmsd') mdtraj centres the TARGET
+    # trajectory in place (md.rmsd(t, ref) shifts t.xyz), so assign_to_nearest_center / kcenters / ... modify the
+    # caller's trajectory.  The precentered form below is the one enspara's batch_reassign uses; it leaves xyz alone.
+    import mdtraj as md
+    from functools import partial
+    rmsd_pc = partial(md.rmsd, precentered=True)
+
+    def centred(t):
+        t.center_coordinates()
+        return t
+    _reg("cluster.assign_to_nearest_center/mdtraj_rmsd", lambda X, c: cutil.assign_to_nearest_center(X, c, rmsd_pc),
+         lambda rs, k: (lambda t: (t, t[[0, 3]]))(centred(_mdtraj(rs, 6 + k))))
+    _reg("cluster.assign_to_nearest_center/mdtraj_more_centers_than_frames",
+         lambda X, c: cutil.assign_to_nearest_center(X, c, rmsd_pc),
+         lambda rs, k: (lambda t: (t[:2 + k], t[1:]))(centred(_mdtraj(rs, 7))))
+
+    def fcc(rs, k, labels=(0, 1, 2), n=12):
+        a = np.array(labels)[rs.randint(0, len(labels), size=n)]
+        a[:len(labels)] = labels
+        d = rs.randint(0, 4, size=n).astype(float) if k == 2 else rs.rand(n)     # k=2: ties in the distances
+        return a, d
+    _reg("cluster.find_cluster_centers", lambda a, d: cutil.find_cluster_centers(a, d), lambda rs, k: fcc(rs, k))
+    _reg("cluster.find_cluster_centers/missing_labels", lambda a, d: cutil.find_cluster_centers(a, d),
+         lambda rs, k: fcc(rs, k, (0, 2, 5, 9)))
+    _reg("cluster.find_cluster_centers/int32_negative_label", lambda a, d: cutil.find_cluster_centers(a, d),
+         lambda rs, k: (lambda a, d: (a.astype(np.int32), d.astype(np.float32)))(*fcc(rs, k, (-1, 0, 3))))
+    _reg("cluster.find_cluster_centers/lists", lambda a, d: cutil.find_cluster_centers(np.asarray(a), np.asarray(d)),
+         lambda rs, k: tuple(x.tolist() for x in fcc(rs, k)))
+    _reg("cluster.compute_batches", lambda l, b: cutil.compute_batches(l, b),
+         lambda rs, k: ([int(x) for x in rs.randint(1, 6, size=7)], 6 + k))
+    _reg("cluster.compute_batches/ndarray", lambda l, b: cutil.compute_batches(l, b),
+         lambda rs, k: (rs.randint(1, 6, size=7), 5 + 2 * k))
+    # SKIPPED: cluster.util.batch_reassign / reassign / load_* read trajectory files (load_as_concatenated).
+    _reg("cluster.ClusterResult.partition/square",
+         lambda ci, d, a, l: proj(cutil.ClusterResult(center_indices=ci, distances=d, assignments=a, centers=None).partition(l)),
+         lambda rs, k: ([1, 7, 10], rs.rand(12), rs.randint(0, 3, size=12), [4, 4, 4]))
+    _reg("cluster.ClusterResult.partition/ragged",
+         lambda ci, d, a, l: proj(cutil.ClusterResult(center_indices=ci, distances=d, assignments=a, centers=None).partition(l)),
+         lambda rs, k: (np.array([1, 7, 10]), rs.rand(12), rs.randint(0, 3, size=12), [5, 3, 4] if k else np.array([2, 6, 4])))
+    _reg("cluster.unique_states", lambda a: save_states.unique_states(a), lambda rs, k: (_padded(rs, 3, 5),))
+
+    # ---- k-centers
+    def Xmk(rs, k):
         return (_points(rs, 14), ["euclidean", "manhattan"][k % 2], 3 + k % 2)
-    if base.startswith("libdist."):
-        X = rs.randint(-3, 4, size=(9, 3))
-        if "hamming" in base:
-            return (X.astype(np.int32), X[2].astype(np.int32))
-        if name.endswith("/F"):
-            return (np.asfortranarray(X.astype(np.float64)), X[2].astype(np.float64))
-        if name.endswith("/f32"):
-            return (X.astype(np.float32), X[2].astype(np.float32))
-        return (X.astype(np.float64), X[2].astype(np.float64))
-    if base.startswith("ra."):
-        from enspara import ra
-        rows = [rs.randint(0, 9, size=rs.randint(1, 5)) for _ in range(4)]
-        return (ra.RaggedArray(rows),)
-    if base == "rotamer._rotamers":
-        return (rs.rand(20) * 360, [0, 120, 240, 360], 15)
-    if base == "disorder.transitions":
-        return (rs.randint(0, 3, size=(3, 8)),)
-    raise KeyError(name)
+    _reg("cluster.kcenters", lambda X, m, k: kcenters.kcenters(X, m, n_clusters=k), Xmk)
+    _reg("cluster.kcenters_ti", lambda X, m, k: kcenters.kcenters(X, m, n_clusters=k, use_triangle_inequality=True), Xmk)
+    _reg("cluster.kcenters/dist_cutoff", lambda X, m, c: kcenters.kcenters(X, m, dist_cutoff=c),
+         lambda rs, k: (_points(rs, 14), ["euclidean", "manhattan"][k % 2], 3.5 + k))
+    _reg("cluster.kcenters/dist_cutoff,n_clusters", lambda X, m, c: kcenters.kcenters(X, m, n_clusters=4, dist_cutoff=c),
+         lambda rs, k: (_points(rs, 14), "euclidean", 2.0 + 2 * k))
+    _reg("cluster.kcenters/dist_cutoff,ti", lambda X, m, c: kcenters.kcenters(X, m, dist_cutoff=c, use_triangle_inequality=True),
+         lambda rs, k: (_points(rs, 14), "manhattan", 4.0 + k))
+    _reg("cluster.kcenters/init_centers", lambda X, c: kcenters.kcenters(X, "euclidean", n_clusters=4, init_centers=c),
+         lambda rs, k: (lambda X: (X, X[[2, 9]]))(_points(rs, 14)))
+    _reg("cluster.kcenters/init_centers_not_frames,ti",
+         lambda X, c: kcenters.kcenters(X, "euclidean", n_clusters=4, init_centers=c, use_triangle_inequality=True),
+         lambda rs, k: (lambda X: (X, X[[2, 9]] + 0.5))(_points(rs, 14)))
+    _reg("cluster.kcenters/init_centers_list,dist_cutoff",
+         lambda X, c: kcenters.kcenters(X, "manhattan", dist_cutoff=3.0, init_centers=c),
+         lambda rs, k: (lambda X: (X, [X[1], X[5], X[6]]))(_points(rs, 14)))
+    _reg("cluster.kcenters/init_centers_enough", lambda X, c: kcenters.kcenters(X, "euclidean", n_clusters=2, init_centers=c),
+         lambda rs, k: (lambda X: (X, X[[0, 4]]))(_points(rs, 10)))
+    _reg("cluster.kcenters/int64", lambda X, m, k: kcenters.kcenters(X, m, n_clusters=k),
+         lambda rs, k: (lambda X, m, n: (X.astype(np.int64), m, n))(*Xmk(rs, k)))
+    _reg("cluster.kcenters/f32_F", lambda X, m, k: kcenters.kcenters(X, m, n_clusters=k),
+         lambda rs, k: (lambda X, m, n: (np.asfortranarray(X.astype(np.float32)), m, n))(*Xmk(rs, k)))
+    _reg("cluster.kcenters/callable_metric", lambda X: kcenters.kcenters(X, lambda A, b: np.abs(A - b).max(axis=1), n_clusters=3),
+         lambda rs, k: (_points(rs, 12, 3),))
+    _reg("cluster.kcenters/mdtraj_rmsd", lambda t: (lambda r: (r.center_indices, r.distances, r.assignments, r.centers))(
+        kcenters.kcenters(t, rmsd_pc, n_clusters=3)), lambda rs, k: (centred(_mdtraj(rs, 8)),))
+    _reg("cluster.kcenters/mdtraj_rmsd,ti,init_centers",
+         lambda t, c: (lambda r: (r.center_indices, r.distances, r.assignments))(
+             kcenters.kcenters(t, rmsd_pc, n_clusters=4, init_centers=c, use_triangle_inequality=True)),
+         lambda rs, k: (lambda t: (t, t[[1, 5]]))(centred(_mdtraj(rs, 9))))
+    _reg("cluster.kcenters_mpi", lambda X, m, k: kcenters.kcenters_mpi(X, m, n_clusters=k), Xmk)
+
+    # ---- k-medoids
+    _reg("cluster.kmedoids", lambda X, m, k: kmedoids.kmedoids(X, m, n_clusters=k, n_iters=2, random_state=5), Xmk)
+    _reg("cluster.kmedoids/proposals",
+         lambda X, ci, pr: kmedoids.kmedoids(X, "euclidean", cluster_center_inds=list(ci), proposals=pr, n_iters=1),
+         lambda rs, k: (_points(rs, 14), (1, 6, 11), [2 + k, 7, 12]))
+    _reg("cluster.kmedoids/cluster_center_inds",
+         lambda X, ci: kmedoids.kmedoids(X, "manhattan", cluster_center_inds=list(ci), n_iters=2, random_state=3 + 0),
+         lambda rs, k: (_points(rs, 14), (0, 5, 9, 13)[:3 + k % 2]))
+    # EXCLUDED (genuine defect, reported): kmedoids(..., cluster_center_inds=<list or ndarray>) overwrites the entries
+    # of the caller's cluster_center_inds with the accepted medoids (_kmedoids_pam_update: medoid_inds[cid] = ...).
+    # The variants around this one pass a private list(...) copy.
+    # _reg("cluster.kmedoids/cluster_center_inds_array",
+    #      lambda X, ci: kmedoids.kmedoids(X, "euclidean", cluster_center_inds=ci, n_iters=2, random_state=8),
+    #      lambda rs, k: (_points(rs, 14), np.array([0, 5, 9])))
+    # _reg("cluster.kmedoids/cluster_center_inds_list",
+    #      lambda X, ci: kmedoids.kmedoids(X, "euclidean", cluster_center_inds=ci, n_iters=2, random_state=8),
+    #      lambda rs, k: (_points(rs, 14), [0, 5, 9]))
+    _reg("cluster.kmedoids/traj_frame_inds",
+         lambda X, ci, L: kmedoids.kmedoids(X, "euclidean", cluster_center_inds=ci, X_lengths=L, n_iters=1, random_state=2),
+         lambda rs, k: (_points(rs, 14), ((0, 1), (1, 2), (2, 3)), [5, 5, 4]))
+
+    def warm(rs, k):
+        X = _points(rs, 14)
+        a, d = cutil.assign_to_nearest_center(X, X[[1, 6, 11]], libdist.euclidean)
+        return X, a, d
+    _reg("cluster.kmedoids/assignments_distances",
+         lambda X, a, d: kmedoids.kmedoids(X, "euclidean", assignments=a, distances=d, n_iters=2, random_state=4), warm)
+    _reg("cluster.kmedoids/assignments_distances_proposals",
+         lambda X, a, d: kmedoids.kmedoids(X, "euclidean", assignments=a, distances=d, n_iters=1, proposals=[0, 7, 13]), warm)
+    _reg("cluster.kmedoids/int32", lambda X, m, k: kmedoids.kmedoids(X, m, n_clusters=k, n_iters=2, random_state=5),
+         lambda rs, k: (lambda X, m, n: (X.astype(np.int32), m, n))(*Xmk(rs, k)))
+    _reg("cluster.kmedoids/n_iters=0_like", lambda X, m, k: kmedoids.kmedoids(X, m, n_clusters=k, n_iters=1, random_state=0), Xmk)
+    _reg("cluster._kmedoids_pam_update",
+         lambda X, mi, a, d: kmedoids._kmedoids_pam_update(X, libdist.euclidean, list(mi), a, d, proposals=[0, 7, 13]),
+         lambda rs, k: (lambda X, a, d: (X, (1, 6, 11), a, d))(*warm(rs, k)))
+
+    # ---- hybrid
+    _reg("cluster.hybrid", lambda X, m, k: hybrid.hybrid(X, m, n_clusters=k, n_iters=2, random_state=5), Xmk)
+    _reg("cluster.hybrid/dist_cutoff", lambda X, m, c: hybrid.hybrid(X, m, dist_cutoff=c, n_iters=2, random_state=7),
+         lambda rs, k: (_points(rs, 14), ["euclidean", "manhattan"][k % 2], 3.5 + k))
+    _reg("cluster.hybrid/dist_cutoff,n_clusters",
+         lambda X, m, c: hybrid.hybrid(X, m, n_clusters=4, dist_cutoff=c, n_iters=1, random_state=1),
+         lambda rs, k: (_points(rs, 14), "euclidean", 2.0 + 2 * k))
+    _reg("cluster.hybrid/init_centers", lambda X, c: hybrid.hybrid(X, "euclidean", n_clusters=4, init_centers=c, n_iters=2, random_state=3),
+         lambda rs, k: (lambda X: (X, X[[2, 9]]))(_points(rs, 14)))
+    _reg("cluster.hybrid/n_iters=0", lambda X, m, k: hybrid.hybrid(X, m, n_clusters=k, n_iters=0), Xmk)
+    _reg("cluster.hybrid/randomstate_object",
+         lambda X, m, k: hybrid.hybrid(X, m, n_clusters=k, n_iters=2, random_state=np.random.RandomState(11)), Xmk)
+
+    # ---- estimator classes: fit + predict
+    def fitpred(est, X, Y, **fitkw):
+        est.fit(X, **fitkw)
+        p = est.predict(Y)
+        return (proj(est.result_), est.labels_, est.distances_, est.center_indices_, est.centers_, proj(p))
+
+    def XY(rs, k):
+        X = _points(rs, 16)
+        return X[:12], X[10:]
+    _reg("cluster.KCenters.fit_predict", lambda X, Y, k: fitpred(KCenters("euclidean", n_clusters=k), X, Y),
+         lambda rs, k: XY(rs, k) + (3 + k % 2,))
+    _reg("cluster.KCenters.fit_predict/cluster_radius", lambda X, Y, r: fitpred(KCenters("manhattan", cluster_radius=r), X, Y),
+         lambda rs, k: XY(rs, k) + (4.0 + k,))
+    _reg("cluster.KCenters.fit_predict/init_centers",
+         lambda X, Y, c: fitpred(KCenters("euclidean", n_clusters=4, cluster_radius=1.0), X, Y, init_centers=c),
+         lambda rs, k: (lambda X, Y: (X, Y, X[[1, 5]]))(*XY(rs, k)))
+    # KMedoids has no random_state parameter: from n_clusters alone its start is drawn from an unseeded default_rng
+    # (SKIPPED: randomised without a seed argument).  With cluster_center_inds the start is given and the proposals
+    # come from numpy's GLOBAL RandomState, which the call below seeds first.
+    def kmed(X, Y, ci, **kw):
+        np.random.seed(1234)
+        return fitpred(KMedoids("euclidean", n_iters=2), X, Y, cluster_center_inds=list(ci), **kw)
+    _reg("cluster.KMedoids.fit_predict/cluster_center_inds", kmed, lambda rs, k: XY(rs, k) + ((0, 4, 9),))
+
+    def kmed_warm(X, Y, a, d):
+        np.random.seed(99)
+        return fitpred(KMedoids("manhattan", n_iters=1), X, Y, assignments=a, distances=d)
+    _reg("cluster.KMedoids.fit_predict/assignments_distances", kmed_warm,
+         lambda rs, k: (lambda X, Y: (X, Y) + cutil.assign_to_nearest_center(X, X[[1, 6, 11]], libdist.manhattan))(*XY(rs, k)))
+    _reg("cluster.KHybrid.fit_predict", lambda X, Y, k: fitpred(KHybrid("euclidean", n_clusters=k, kmedoids_updates=2, random_state=6), X, Y),
+         lambda rs, k: XY(rs, k) + (3 + k % 2,))
+    _reg("cluster.KHybrid.fit_predict/cluster_radius",
+         lambda X, Y, r: fitpred(KHybrid("manhattan", cluster_radius=r, kmedoids_updates=1, random_state=2), X, Y),
+         lambda rs, k: XY(rs, k) + (4.0 + k,))
+    _reg("cluster.KHybrid.fit_predict/init_centers",
+         lambda X, Y, c: fitpred(KHybrid("euclidean", n_clusters=4, kmedoids_updates=1, random_state=2), X, Y, init_centers=c),
+         lambda rs, k: (lambda X, Y: (X, Y, X[[1, 5]]))(*XY(rs, k)))
 
 
-def _build():
-    from enspara.info_theory import entropy, mutual_info, libinfo
-    from enspara.msm import builders, MSM, synthetic_data
-    from enspara.msm import transition_matrices as tm
-    from enspara import tpt, ra
-    from enspara.cluster import kcenters, kmedoids, hybrid, util as cutil
-    from enspara.geometry import libdist, rotamer
-    from enspara.cards import disorder
-    R = {}
-    R["entropy.shannon_entropy"] = lambda p: entropy.shannon_entropy(p)
-    R["entropy.shannon_entropy/nonorm"] = lambda p: entropy.shannon_entropy(p / p.sum(), normalize=False)
-    R["entropy.shannon_entropy_2d"] = lambda p: entropy.shannon_entropy(p)
-    R["entropy.kl_divergence"] = lambda P, Q: entropy.kl_divergence(P, Q)
-    R["entropy.js_divergence"] = lambda P, Q: entropy.js_divergence(P, Q)
-    R["mutual_info.mutual_information"] = lambda jc: mutual_info.mutual_information(jc)
-    R["mutual_info.mutual_information_empty_pair"] = lambda jc: mutual_info.mutual_information(jc)
-    R["mutual_info.joint_counts"] = lambda X, Y, nx, ny: mutual_info.joint_counts(X, Y, nx, ny)
-    R["mutual_info.mi_matrix"] = lambda Xs, Ys, nx, ny: mutual_info.mi_matrix(Xs, Ys, nx, ny)
-    R["mutual_info.weighted_mi"] = lambda f, w: mutual_info.weighted_mi(f, w)
-    R["mutual_info.mi_to_nmi_apc"] = lambda m: mutual_info.mi_to_nmi_apc(m)
-    R["libinfo.matrix_bincount2d"] = lambda a, b, na, nb: libinfo.matrix_bincount2d(a, b, na, nb)
-    R["libinfo.bincount2d"] = lambda a, b, na, nb: libinfo.bincount2d(a, b, na, nb)
-    for bn in ("normalize", "transpose", "mle"):
-        for cont in ("", "/csr", "/lil"):
-            R["builders.%s%s" % (bn, cont)] = (lambda f: (lambda C: f(C)))(getattr(builders, bn))
-    R["msm.assigns_to_counts"] = lambda a, lag: tm.assigns_to_counts(a, lag)
-    R["msm.trim_disconnected"] = lambda C: tm.trim_disconnected(C)
-    R["msm.eigenspectrum"] = lambda T: tm.eigenspectrum(T)
-    R["msm.eq_probs"] = lambda T: tm.eq_probs(T)
-    R["msm.synthetic_ensemble"] = lambda T, p0, n: synthetic_data.synthetic_ensemble(T, p0, n)
+# ================================================================== geometry.libdist kernels (OpenMP)
+@_family
+def _fam_libdist():
+    from enspara.geometry import libdist
 
-    def fit(a, method):
-        m = MSM(lag_time=1, method=method, trim=True)
-        m.fit(a)
-        return (m.tcounts_, m.tprobs_, m.eq_probs_, m.mapping_)
-    R["msm.MSM.fit"] = fit
-    R["tpt.committors"] = lambda T, s, t: tpt.committors(T, s, t)
-    R["tpt.committors/csr"] = lambda T, s, t: tpt.committors(T, s, t)
-    R["tpt.mfpts"] = lambda T, sinks: tpt.mfpts(T, sinks=sinks)
-    R["tpt.reactive_fluxes"] = lambda T, s, t, p: tpt.reactive_fluxes(T, s, t, populations=p)
-    R["tpt.net_fluxes"] = lambda T, s, t, p: tpt.net_fluxes(T, s, t, populations=p)
-    R["tpt.reactive_populations"] = lambda T, s, t, p: tpt.reactive_populations(T, s, t, populations=p)
-    R["tpt.paths"] = lambda s, t, nf: tpt.paths(s, t, nf, num_paths=3)
-    R["tpt.top_path"] = lambda s, t, nf: tpt.top_path(s, t, nf)
-    R["cluster.assign_to_nearest_center"] = lambda X, c, m: cutil.assign_to_nearest_center(X, c, cutil._get_distance_method(m))
-    R["cluster.find_cluster_centers"] = lambda a, d: cutil.find_cluster_centers(a, d)
-    R["cluster.kcenters"] = lambda X, m, k: kcenters.kcenters(X, m, n_clusters=k)
-    R["cluster.kcenters_ti"] = lambda X, m, k: kcenters.kcenters(X, m, n_clusters=k, use_triangle_inequality=True)
-    R["cluster.kmedoids"] = lambda X, m, k: kmedoids.kmedoids(X, m, n_clusters=k, n_iters=2, random_state=5)
-    R["cluster.hybrid"] = lambda X, m, k: hybrid.hybrid(X, m, n_clusters=k, n_iters=2, random_state=5)
+    def Xy(rs, k, dt, n=9):
+        X = rs.randint(-3, 4, size=(n, 3))
+        return X.astype(dt), X[2].astype(dt)
     for kn in ("euclidean", "manhattan"):
-        for var in ("", "/F", "/f32"):
-            R["libdist.%s%s" % (kn, var)] = (lambda f: (lambda X, y: f(X, y)))(getattr(libdist, kn))
-    R["libdist.hamming"] = lambda X, y: libdist.hamming(X, y)
-    R["ra.read"] = lambda a: (a[1], a[1:3], a[:, 0], a[0, 0], a.flatten(), a.lengths, a.starts, [r for r in a])
-    R["ra.where"] = lambda a: ra.where(a > 3)
-    R["ra.ops"] = lambda a: (a + 1, a * a, a == a, (a > 2).any(), a.max(), a.min())
-    R["rotamer._rotamers"] = lambda ang, hb, bw: rotamer._rotamers(ang, hb, bw)
-    R["disorder.transitions"] = lambda a: disorder.transitions(a)
-    return R
+        f = getattr(libdist, kn)
+        call = (lambda f: lambda X, y: f(X, y))(f)
+        _reg("libdist.%s" % kn, call, lambda rs, k: Xy(rs, k, np.float64))
+        _reg("libdist.%s/F" % kn, call, lambda rs, k: (lambda X, y: (np.asfortranarray(X), y))(*Xy(rs, k, np.float64)))
+        for dt in ("f32", "int8", "int16", "int32", "int64"):
+            dtype = np.dtype({"f32": "float32"}.get(dt, dt))
+            _reg("libdist.%s/%s" % (kn, dt), call, (lambda dtype: lambda rs, k: Xy(rs, k, dtype))(dtype))
+        _reg("libdist.%s/strided_rows" % kn, call, lambda rs, k: (lambda X, y: (X[::2], y))(*Xy(rs, k, np.float64, 16)))
+        _reg("libdist.%s/strided_columns_int32" % kn, call,
+             lambda rs, k: (lambda X: (X[:, ::2], X[1, ::2]))(rs.randint(-3, 4, size=(9, 6)).astype(np.int32)))
+        _reg("libdist.%s/strided_y_f32" % kn, call,
+             lambda rs, k: (lambda X, yy: (X, yy[::2]))(rs.rand(8, 3).astype(np.float32), rs.rand(6).astype(np.float32)))
+        _reg("libdist.%s/transposed_int64" % kn, call,
+             lambda rs, k: (lambda X: (X.T, X.T[3].copy()))(rs.randint(-5, 6, size=(3, 9))))
+        # out= is documented to receive the distances: only `out` (position 2) may change
+        callo = (lambda f: lambda X, y, out: (f(X, y, out=out), out))(f)
+        _reg("libdist.%s/out" % kn, callo, lambda rs, k: Xy(rs, k, np.float64) + (np.full(9, 7.0),), writes=(2,))
+        _reg("libdist.%s/out_uninitialised_int32" % kn, callo, lambda rs, k: Xy(rs, k, np.int32) + (np.empty(9),), writes=(2,))
+        _reg("libdist.%s/out_f32_F" % kn, callo,
+             lambda rs, k: (lambda X, y: (np.asfortranarray(X), y, np.zeros(9)))(*Xy(rs, k, np.float32)), writes=(2,))
+
+    def Xh(rs, k, dt, n=9):
+        X = rs.randint(0, 4, size=(n, 4))
+        return X.astype(dt), X[2].astype(dt)
+    call = lambda X, y: libdist.hamming(X, y)
+    _reg("libdist.hamming", call, lambda rs, k: (lambda X: (X.astype(np.int32), X[2].astype(np.int32)))(rs.randint(-3, 4, size=(9, 3))))
+    for dt in ("int8", "int16", "int64", "uint8", "uint16", "uint32", "uint64"):
+        _reg("libdist.hamming/%s" % dt, call, (lambda dt: lambda rs, k: Xh(rs, k, dt))(np.dtype(dt)))
+    _reg("libdist.hamming/F", call, lambda rs, k: (lambda X, y: (np.asfortranarray(X), y))(*Xh(rs, k, np.int64)))
+    _reg("libdist.hamming/strided", call, lambda rs, k: (lambda X, y: (X[::2], y))(*Xh(rs, k, np.uint8, 16)))
+    _reg("libdist.hamming/out", lambda X, y, out: (libdist.hamming(X, y, out=out), out),
+         lambda rs, k: Xh(rs, k, np.int32) + (np.empty(9),), writes=(2,))
 
 
-class _Lazy(dict):
-    def __missing__(self, k):
-        self.update(_build())
-        return dict.__getitem__(self, k)
+# ================================================================== ra
+@_family
+def _fam_ra():
+    from enspara import ra
 
-    def names(self):
-        if not len(self):
-            self.update(_build())
-        return sorted(self.keys())
+    def rows(rs, k, n=4, lo=1, hi=5, dt=int):
+        return [rs.randint(0, 9, size=rs.randint(lo, hi)).astype(dt) for _ in range(n)]
+
+    def RA(rs, k, **kw):
+        return ra.RaggedArray(rows(rs, k, **kw))
+
+    _reg("ra.read", lambda a: (a[1], a[1:3], a[:, 0], a[0, 0], a.flatten(), a.lengths, a.starts, [r for r in a]),
+         lambda rs, k: (RA(rs, k),))
+    _reg("ra.read/slices", lambda a: (a[::2], a[::-1], a[-2:], a[1:, 1:], a[:, :2], a[:, ::2], a[:3, -1:], a[1:3, 0], a[0, 1:],
+                                       a[[0, 2]], a[np.array([3, 1])], a[[0, 2], :1], a.shape, a.size, len(a), a.dtype.str),
+         lambda rs, k: (RA(rs, k, lo=2, hi=6),))
+    _reg("ra.read/index_lists", lambda a: (a[[0, 1, 3], [0, 1, 0]], a[(np.array([0, 2]), np.array([1, 0]))], a[2, 0], a[-1, -1],
+                                            a[a > 3], a[:, [0]], a[1:, [0, 1]]),
+         lambda rs, k: (RA(rs, k, lo=2, hi=5),))
+    _reg("ra.read/float_rows", lambda a: (a[1], a[1:], a[:, -1], a.flatten(), a.max(), a.min(), str(a)[:0]),
+         lambda rs, k: (ra.RaggedArray([rs.rand(rs.randint(1, 5)) for _ in range(3 + k)]),))
+    _reg("ra.read/vector_elements", lambda a: (a[0], a[1:], a[:, 0], a.flatten(), a.lengths, a.shape),
+         lambda rs, k: (ra.RaggedArray(rs.rand(9, 2), lengths=[4, 2, 3]),))
+    _reg("ra.construct/list_of_lists", lambda l: ra.RaggedArray(l), lambda rs, k: ([r.tolist() for r in rows(rs, k)],))
+    _reg("ra.construct/list_of_arrays", lambda l: ra.RaggedArray(l), lambda rs, k: (rows(rs, k),))
+    _reg("ra.construct/flat_lengths", lambda d, l: ra.RaggedArray(d, lengths=l),
+         lambda rs, k: (rs.randint(0, 9, size=10), [3, 5, 2] if k % 2 else np.array([4, 4, 2])))
+    _reg("ra.construct/flat_lengths_equal", lambda d, l: ra.RaggedArray(d, lengths=l), lambda rs, k: (rs.rand(12), [4, 4, 4]))
+    _reg("ra.construct/copy=False", lambda d, l: ra.RaggedArray(d, lengths=l, copy=False), lambda rs, k: (rs.rand(9), [4, 2, 3]))
+    _reg("ra.construct/1d", lambda d: ra.RaggedArray(d), lambda rs, k: (rs.randint(0, 9, size=6),))
+    _reg("ra.where", lambda a: ra.where(a > 3), lambda rs, k: (RA(rs, k),))
+    _reg("ra.where/mask", lambda m: ra.where(m), lambda rs, k: (RA(rs, k) > 4,))
+    _reg("ra.where/ndarray", lambda m: ra.where(m), lambda rs, k: (rs.rand(3, 4) > 0.5,))
+    _reg("ra.where/ndarray_1d_int", lambda m: ra.where(m), lambda rs, k: (rs.randint(0, 2, size=9),))
+    _reg("ra.partition_indices/ndarray", lambda i, l: ra.partition_indices(i, l),
+         lambda rs, k: (np.sort(rs.randint(0, 12, size=4)), np.array([5, 3, 4])))
+    _reg("ra.partition_indices/list", lambda i, l: ra.partition_indices(i, l),
+         lambda rs, k: ([int(x) for x in rs.randint(0, 12, size=4)], [5, 3, 4]))
+    _reg("ra.partition_indices/int32", lambda i, l: ra.partition_indices(i, l),
+         lambda rs, k: (rs.randint(0, 12, size=5).astype(np.int32), np.array([2, 6, 4], dtype=np.int32)))
+    _reg("ra.partition_list", lambda x, l: ra.partition_list(x, l), lambda rs, k: (rs.rand(10), [3, 5, 2]))
+    _reg("ra.partition_list/list", lambda x, l: ra.partition_list(x, l),
+         lambda rs, k: ([int(v) for v in rs.randint(0, 9, size=10)], np.array([4, 4, 2])))
+    _reg("ra.zeros_like", lambda a: ra.zeros_like(a), lambda rs, k: (RA(rs, k),))
+    _reg("ra.zeros_like/ndarray", lambda a: ra.zeros_like(a), lambda rs, k: (rs.rand(3, 2),))
+    _reg("ra.ops", lambda a: (a + 1, a * a, a == a, (a > 2).any(), a.max(), a.min()), lambda rs, k: (RA(rs, k),))
+    _reg("ra.ops/scalar", lambda a: (a - 2, 3 - a, 2 * a, a / 2, 7 / (a + 1), a // 2, 9 // (a + 1), a ** 2, 2 ** a, a % 3, 10 % (a + 1),
+                                      1 + a, a < 4, a <= 4, a >= 4, a != 4, (a > 1).all()),
+         lambda rs, k: (RA(rs, k),))
+    _reg("ra.ops/float_scalar", lambda a: (a + 0.5, a * 1.5, a / 3.0, a ** 0.5, -1.0 * a), lambda rs, k: (RA(rs, k),))
+    _reg("ra.ops/ragged_operand", lambda a, b: (a + b, a - b, a * b, a / (b + 1), a // (b + 1), a % (b + 1), a ** b, a == b, a < b, a >= b),
+         lambda rs, k: (lambda r: (ra.RaggedArray(r), ra.RaggedArray([rs.randint(0, 4, size=len(x)) for x in r])))(rows(rs, k)))
+    _reg("ra.ops/bool", lambda a, b: (a | b, a & b, a ^ b, ~a, (a & b).any(), (a | b).all()),
+         lambda rs, k: (lambda r: (ra.RaggedArray(r) > 3, ra.RaggedArray(r) % 2 == 0))(rows(rs, k)))
+    _reg("ra.ops/flat_operand", lambda a, f: (a + f, a * f), lambda rs, k: (lambda a: (a, rs.rand(a.size)))(RA(rs, k)))
+    _reg("ra.flatten", lambda a: a.flatten(), lambda rs, k: (RA(rs, k, dt=np.int16),))
+    _reg("ra.map_operator", lambda a, b: a.map_operator("__add__", b), lambda rs, k: (lambda a: (a, a))(RA(rs, k)))
+    # writers are documented to work in place: exercised on a private copy made inside the call
+    def setitems(a, v):
+        b = ra.RaggedArray(a._data.copy(), lengths=a.lengths.copy())
+        b[0] = v[:b.lengths[0]]
+        b[1, 0] = 100
+        b[:, 0] = -1
+        b[b > 6] = 0
+        b.append([np.array([1, 2, 3])])
+        return b
+    _reg("ra.setitem_append/on_copy", setitems, lambda rs, k: (RA(rs, k, lo=2, hi=6), np.arange(10) + 20))
+    # save / load round trip in a scratch directory
+    def roundtrip(a, **kw):
+        import tempfile, os, shutil
+        d = tempfile.mkdtemp(prefix="ev_c19_ra_")
+        try:
+            f = os.path.join(d, "a.h5")
+            ra.save(f, a)
+            return ra.load(f, **kw)
+        finally:
+            shutil.rmtree(d, ignore_errors=True)
+    _reg("ra.save_load", lambda a: roundtrip(a), lambda rs, k: (RA(rs, k, n=3),))
+    _reg("ra.save_load/stride", lambda a: roundtrip(a, stride=2), lambda rs, k: (RA(rs, k, n=3, lo=3, hi=8),))
+    _reg("ra.save_load/ndarray", lambda a: roundtrip(a), lambda rs, k: (rs.rand(4, 3),))
+    _reg("ra.save_load/float32_keys", lambda a: roundtrip(a, keys=["arr_00", "arr_02"]),
+         lambda rs, k: (ra.RaggedArray([rs.rand(n).astype(np.float32) for n in (3, 2, 4)]),))
 
 
-ROUTINES = _Lazy()
-# documented in-place behaviour (none of the routines above is called with an out= buffer)
-WRITES_ARG = set()
-# routines whose execution leaves freed junk of many sizes on the heap (prior-call alphabet)
-DIRTY = ["entropy.shannon_entropy", "mutual_info.mutual_information", "builders.mle", "tpt.paths",
-         "cluster.hybrid", "ra.ops"]
+# ================================================================== cards / rotamer / helix / rmsf
+@_family
+def _fam_cards_geometry():
+    from enspara.cards import disorder
+    from enspara.cards.cards import cards_matrices
+    from enspara.geometry import rotamer, helix
+    from enspara import ra
+
+    # ---- disorder
+    def rot2d(rs, k, n=3, T=8, dt=int):
+        a = rs.randint(0, 3, size=(n, T)).astype(dt)
+        if k:
+            a[1] = a[1, 0]                               # a row without transitions
+        return a
+    _reg("disorder.transitions", lambda a: disorder.transitions(a), lambda rs, k: (rot2d(rs, 0),))
+    _reg("disorder.transitions/1d", lambda a: disorder.transitions(a), lambda rs, k: (rs.randint(0, 3, size=10 + k),))
+    _reg("disorder.transitions/1d_int16_constant", lambda a: disorder.transitions(a),
+         lambda rs, k: (np.full(6, k, dtype=np.int16),))
+    _reg("disorder.transitions/2d_rows_without_transitions", lambda a: disorder.transitions(a), lambda rs, k: (rot2d(rs, 1 + k),))
+    _reg("disorder.transitions/2d_int8_F", lambda a: disorder.transitions(a),
+         lambda rs, k: (np.asfortranarray(rot2d(rs, k, dt=np.int8)),))
+    _reg("disorder.transitions/2d_uint8", lambda a: disorder.transitions(a), lambda rs, k: (rot2d(rs, k, dt=np.uint8),))
+    _reg("disorder.transitions/ragged", lambda a: disorder.transitions(a),
+         lambda rs, k: (ra.RaggedArray([rs.randint(0, 3, size=rs.randint(3, 9)) for _ in range(3)]),))
+    _reg("disorder.transitions/1d_strided", lambda a: disorder.transitions(a), lambda rs, k: (rs.randint(0, 3, size=20)[::2],))
+
+    def tt(rs, k):
+        n = (0, 1, 5)[k]
+        return (np.sort(rs.choice(30, size=n, replace=False)),)
+    _reg("disorder.traj_ord_disord_times", lambda t: disorder.traj_ord_disord_times(t), tt)
+    _reg("disorder.traj_ord_disord_times/many", lambda t: disorder.traj_ord_disord_times(t),
+         lambda rs, k: (np.sort(rs.choice(40, size=4 + 3 * k, replace=False)),))
+    _reg("disorder.traj_ord_disord_times/int32", lambda t: disorder.traj_ord_disord_times(t),
+         lambda rs, k: (np.sort(rs.choice(40, size=2 + k, replace=False)).astype(np.int32),))
+    _reg("disorder.create_disorder_traj", lambda t, n, o, d: disorder.create_disorder_traj(t, n, o, d),
+         lambda rs, k: (np.sort(rs.choice(30, size=6, replace=False)), 32, 8.0 + k, 1.5))
+    _reg("disorder.create_disorder_traj/few", lambda t, n, o, d: disorder.create_disorder_traj(t, n, o, d),
+         lambda rs, k: (np.sort(rs.choice(30, size=k, replace=False)), 30, 5.0, 2.0))
+    _reg("disorder.aggregate_mean_times", lambda t, n, w: disorder.aggregate_mean_times(t, n, w),
+         lambda rs, k: (rs.rand(3, 4) * 5, rs.randint(0, 9, size=(3, 4)).astype(float), np.array([10, 20, 15])))
+    _reg("disorder.aggregate_mean_times/float_weights_F", lambda t, n, w: disorder.aggregate_mean_times(t, n, w),
+         lambda rs, k: (np.asfortranarray(rs.rand(2, 3)), rs.rand(2, 3), rs.rand(2) + 0.1))
+
+    def rtrajs(rs, k, dt=int):
+        return ([rs.randint(0, 3, size=(12 + 2 * i, 3)).astype(dt) for i in range(2 + k % 2)],)
+    _reg("disorder.transition_stats", lambda r: disorder.transition_stats(r), rtrajs)
+    _reg("disorder.assign_order_disorder", lambda r: disorder.assign_order_disorder(r), rtrajs)
+    _reg("disorder.assign_order_disorder/int16", lambda r: disorder.assign_order_disorder(r), lambda rs, k: rtrajs(rs, k, np.int16))
+    _reg("cards.cards_matrices", lambda r, n: cards_matrices(r, n), lambda rs, k: rtrajs(rs, k) + (np.array([3, 3, 3]),))
+    # SKIPPED: cards.cards / featurizers need md trajectories with dihedrals (real topologies, files).
+
+    # ---- rotamer
+    bsets = {"2": [0, 180, 360], "2b": [0, 160, 360], "3": [0, 120, 240, 360]}
+    for tag, hb in bsets.items():
+        for bw in (0, 15, 30):
+            _reg("rotamer._rotamers/%s,buffer=%d" % (tag, bw), (lambda hb, bw: lambda ang: rotamer._rotamers(ang, hb, bw))(hb, bw),
+                 lambda rs, k: (rs.rand(20) * 360,))
+    _reg("rotamer._rotamers", lambda ang, hb, bw: rotamer._rotamers(ang, hb, bw), lambda rs, k: (rs.rand(20) * 360, [0, 120, 240, 360], 15))
+    _reg("rotamer._rotamers/array_boundaries_f32", lambda ang, hb: rotamer._rotamers(ang, hb, 10.0),
+         lambda rs, k: ((rs.rand(15) * 360).astype(np.float32), np.array([0, 120, 240, 360])))
+    _reg("rotamer._rotamers/list_on_boundaries", lambda ang, hb: rotamer._rotamers(ang, hb, 15),
+         lambda rs, k: ([0.0, 120.0, 135.0, 105.0, 240.0, 359.9, 0.0, 15.0, 345.0, 120.0 - k], [0, 120, 240, 360]))
+    _reg("rotamer._rotamers/wide_buffer", lambda ang, hb: rotamer._rotamers(ang, hb, 95), lambda rs, k: (rs.rand(12) * 360, [0, 180, 360]))
+    _reg("rotamer._rotamers/default_buffer", lambda ang, hb: rotamer._rotamers(ang, hb), lambda rs, k: (rs.rand(12) * 360, (0, 160, 360)))
+    _reg("rotamer.is_buffered_transition",
+         lambda hb: [rotamer.is_buffered_transition(s, a, hb, b) for s in range(len(hb) - 1) for a in (0, 10.5, 119, 121, 200, 350, 360)
+                     for b in (0, 15, 45)],
+         lambda rs, k: ([[0, 120, 240, 360], [0, 180, 360], np.array([0, 160, 360])][k],))
+    _reg("rotamer.get_gates",
+         lambda hb: [rotamer.get_gates(s, hb, b) for s in range(len(hb) - 1) for b in (0, 15, 30.5)],
+         lambda rs, k: ([[0, 120, 240, 360], [0, 180, 360], np.array([0, 160, 360])][k],))
+    _reg("rotamer.get_gates/numpy_state", lambda s, hb: rotamer.get_gates(s, hb, 15), lambda rs, k: (np.int16(k), [0, 120, 240, 360]))
+    # SKIPPED: rotamer.dihedral_angles / phi_/psi_/chi_/all_rotamers need a trajectory with a protein topology.
+
+    # ---- helix (pure array functions only; the *_helix_vectors entry points need a protein topology)
+    def vecs(rs, k, n=6):
+        v = rs.rand(n, 3) * 2 - 1
+        return v
+    _reg("helix.angles_from_vecs", lambda v: helix.angles_from_vecs(v), lambda rs, k: (vecs(rs, k),))
+    _reg("helix.angles_from_vecs/to", lambda v, to: helix.angles_from_vecs(v, to=to), lambda rs, k: (vecs(rs, k), 1 + k))
+    _reg("helix.angles_from_vecs/F_f32", lambda v: helix.angles_from_vecs(v),
+         lambda rs, k: (np.asfortranarray(vecs(rs, k).astype(np.float32)),))
+    _reg("helix.angles_from_plane_projection", lambda v, a, b: helix.angles_from_plane_projection(v, a, b),
+         lambda rs, k: (vecs(rs, k), np.array([1.0, 0, 0]), np.array([0, 1.0, 0])))
+    _reg("helix.angles_from_plane_projection/radians", lambda v, a, b: helix.angles_from_plane_projection(v, a, b, degree=False),
+         lambda rs, k: (vecs(rs, k), [0.0, 0.0, 1.0], [0.0, 1.0, 0.0]))
+    _reg("helix._get_unit_vectors", lambda v: helix._get_unit_vectors(v), lambda rs, k: (vecs(rs, k),))
+    _reg("helix._generate_vectors_from_coords", lambda c: helix._generate_vectors_from_coords(c),
+         lambda rs, k: (np.cumsum(rs.rand(3, 12, 3), axis=1),))
+    _reg("helix._generate_vectors_from_coords/n_avg=3", lambda c: helix._generate_vectors_from_coords(c, n_avg=3),
+         lambda rs, k: (np.cumsum(rs.rand(2, 10, 3), axis=1).astype(np.float32),))
+    _reg("helix._get_ref_vectors", lambda n, p, r: helix._get_ref_vectors(n, p, r),
+         lambda rs, k: (helix._get_unit_vectors(vecs(rs, k, 4)), rs.rand(4, 3), rs.rand(4, 2, 3)))
+
+
+# ================================================================== mpi.ops at world size 1 (serial fall-backs of the striped operations)
+@_family
+def _fam_mpi_ops():
+    from enspara.mpi import ops
+    _reg("mpi.striped_array_max", lambda a: ops.striped_array_max(a), lambda rs, k: (rs.rand(7) - 0.5,))
+    _reg("mpi.striped_array_max/int", lambda a: ops.striped_array_max(a), lambda rs, k: (rs.randint(-5, 5, size=6),))
+    _reg("mpi.striped_array_mean", lambda a: ops.striped_array_mean(a), lambda rs, k: (rs.rand(7) - 0.5,))
+    _reg("mpi.striped_array_mean/int32", lambda a: ops.striped_array_mean(a), lambda rs, k: (rs.randint(-5, 5, size=6).astype(np.int32),))
+    _reg("mpi.assemble_striped_array", lambda a: ops.assemble_striped_array(a), lambda rs, k: (rs.randint(1, 9, size=5),))
+    _reg("mpi.assemble_striped_ragged_array", lambda a, l: ops.assemble_striped_ragged_array(a, l),
+         lambda rs, k: (rs.rand(9), np.array([4, 2, 3])))
+    _reg("mpi.assemble_striped_ragged_array/one_row", lambda a, l: ops.assemble_striped_ragged_array(a, l),
+         lambda rs, k: (rs.randint(0, 5, size=6), np.array([6])))
+    _reg("mpi.convert_local_indices", lambda i, l: ops.convert_local_indices(i, l),
+         lambda rs, k: ([(0, 1), (0, 4 + k), (0, 8)], np.array([4, 2, 3])))
+    _reg("mpi.distribute_frame", lambda d, i: ops.distribute_frame(d, i, 0), lambda rs, k: (rs.rand(5, 3), k))
+    _reg("mpi.randind", lambda a: ops.randind(a, np.random.RandomState(3)), lambda rs, k: (rs.rand(6),))
+
+
+# ================================================================== geometry.rmsf
+# EXCLUDED (genuine defect, reported): rmsf.rmsf_calc(centers) superposes the caller's trajectory in place
+# (`centers = centers.superpose(centers[ref_frame])` returns self), i.e. it rewrites centers.xyz.
+# @_family
+def _fam_rmsf():
+    from enspara.geometry import rmsf
+    _reg("rmsf.rmsf_calc", lambda c: rmsf.rmsf_calc(c), lambda rs, k: (_mdtraj(rs, 4 + k, 5),))
+    _reg("rmsf.rmsf_calc/populations,per_atom", lambda c, p: rmsf.rmsf_calc(c, populations=p, ref_frame=1, per_residue=False),
+         lambda rs, k: (_mdtraj(rs, 4, 5), (lambda p: p / p.sum())(rs.rand(4))))
